@@ -5,11 +5,30 @@ import ast
 
 from ..cfg import _catches_all
 from ..core import Ctx
-from ..lengths import INF, LengthAnalysis, protected
+import struct
+
+from ..lengths import INF, BytesTyper, LengthAnalysis, annotation_text
+from ..lengths import protected as _protected_by_try
 from ..match import arg, call_name, calls, fact_of, facts_at, is_param, local_defs, mentions, names_in, resolve, same_resolved, single_def
 from ..model import NOCONST as NOCONST_, AnalysisError, FuncInfo, chain, const_value, enclosing_stmt, norm, parent, strip_cast, walk_no_nested
 
 LEVEL = "other"
+
+
+def protected(node: ast.AST, fi: FuncInfo) -> bool:
+    """node lies in the body of a try with a catch-all handler, or of `with suppress(Exception)` (which is that try)"""
+    if _protected_by_try(node, fi):
+        return True
+    cur, p = node, parent(node)
+    while p is not None and cur is not fi.node:
+        if isinstance(p, (ast.With, ast.AsyncWith)) and any(cur is s_ for s_ in p.body):
+            for it in p.items:
+                ce = it.context_expr
+                if isinstance(ce, ast.Call) and chain(ce.func) in ("suppress", "contextlib.suppress") \
+                        and any(chain(a) in ("Exception", "BaseException") for a in ce.args):
+                    return True
+        cur, p = p, parent(p)
+    return False
 EXPLANATION = (
     "The unprotected part of the receive path is computed from the source (every on_packet of an EndpointListener "
     "subclass, notify_listeners/_deliver_later/datagram_received, and every resolved callee, stopping at try/except "
@@ -21,7 +40,14 @@ EXPLANATION = (
     "still-valid membership test or lie under a handler for the exception it raises. Guards are recognised by what they "
     "establish, not by where they are written: a decision kept in a local or returned by a helper (bool, value-or-None, tuple, "
     "tag) carries the facts that held where it was taken; a construct that moved into a helper of the class, behind a "
-    "conditional expression or a dict/tuple of bound methods is judged inside the helper and at every call of it."
+    "conditional expression or a dict/tuple of bound methods is judged inside the helper and at every call of it. "
+    "Small result objects (tuple, NamedTuple, dataclass, record class) are followed part by part: a handler, a slice end or a "
+    "verdict put into one is the same value when it is read back (`route.handler`, `span.end`, `start, end = span`), also when a "
+    "helper builds and returns it; members of an enumeration, operator-module calls (`operator.lt(len(data), 23)`), precompiled "
+    "struct.Struct objects (`HEADER.unpack_from`, `HEADER.size`), `slice(...)` objects and methods picked by name "
+    "(`getattr(keys, spec.method)`, methodcaller) denote what they compute. Plus: per concrete endpoint class, the socket address "
+    "handed to datagram_received (2 elements for AF_INET, 4 for AF_INET6) is never spread / unpacked into a different number of "
+    "fields (decided on the source as written, hooks and class attributes resolved on that class)."
 )
 
 SER = "ipv8/messaging/serialization.py"
@@ -75,6 +101,22 @@ class _Decisions:
         out: list = []
         if depth >= self.MAX_DEPTH or not site_nodes:
             return out
+        base = list(base)
+        i_ = 0
+        while i_ < len(base) and i_ < 200:
+            f = base[i_]
+            i_ += 1
+            # a test spelled as a call of the operator module: operator.eq(a, b), not_(x), contains(t, k), ... is the comparison itself
+            eq = _operator_call_as_test(fi, f.left) if f.op == "truthy" else None
+            if eq is not None:
+                at = getattr(f, "origin", None) or cfg.by_ast.get(id(f.atom), [])
+                same = _atoms_with_polarity(eq, f.pos)
+                if at:
+                    same = self._keep_valid(fi, cfg, same, at, site_nodes)
+                    for g in same:
+                        g.origin = at
+                out.extend(same)
+                base.extend(same)
         for f in base:
             if f.op == "truthy" and f.pos and isinstance(f.left, ast.Compare) and len(f.left.ops) > 1:
                 # a chained comparison that held: each link held (`23 <= len(data) <= limit`)
@@ -90,10 +132,11 @@ class _Decisions:
             if t is None:
                 continue
             tested, kind = t
+            tested, proj = _peel(tested)
             tested_at = getattr(f, "origin", None) or cfg.by_ast.get(id(f.atom), [])
             if isinstance(tested, ast.Call):
                 # the decision is tested where it is taken: `if not self._is_ours(data): return`
-                fs = self._return_facts(fi, tested, kind, None, depth + 1) + _get_implies(tested, kind)
+                fs = self._return_facts(fi, tested, kind, proj, depth + 1) + (_get_implies(tested, kind) if proj is None else [])
                 if tested_at:
                     fs = self._keep_valid(fi, cfg, fs, tested_at, site_nodes)
                     for g in fs:
@@ -105,11 +148,14 @@ class _Decisions:
                 continue
             if tested_at and not self._unchanged(fi, cfg, {name}, tested_at, site_nodes):
                 continue
-            out.extend(self._behind(fi, cfg, name, kind, site_nodes, depth, tested_at or site_nodes))
+            out.extend(self._behind(fi, cfg, name, kind, site_nodes, depth, tested_at or site_nodes, proj))
         return out
 
+    def _rec(self, fi: FuncInfo):
+        return lambda e: _record_of(self.repo, fi.module, e)
+
     # ---- one decision local
-    def _behind(self, fi: FuncInfo, cfg, name: str, kind, site_nodes: list, depth: int, tested_at: list) -> list:
+    def _behind(self, fi: FuncInfo, cfg, name: str, kind, site_nodes: list, depth: int, tested_at: list, proj=None) -> list:
         alts: list[list] = []
         defs = local_defs(fi, name)
         def_nodes = {id(st): cfg.nodes_for(st) for st, _, _ in defs}
@@ -123,7 +169,10 @@ class _Decisions:
             if not any(t in r for t in tested_at):
                 continue
             here = self.facts(fi, cfg, stmt, depth + 1)
-            leaves = _split_value(val, idx) if val is not None else None
+            if idx is not None and proj is not None:
+                leaves = None                     # a part of a part: only what held where it was assigned
+            else:
+                leaves = _split_value(val, idx if idx is not None else proj, self._rec(fi)) if val is not None else None
             if leaves is None:
                 alts.append(self._keep_valid(fi, cfg, here, dn, site_nodes))
                 continue
@@ -226,7 +275,7 @@ class _Decisions:
                 if not rn or not any(n in live for n in rn):
                     continue
                 here = self.facts(t, tcfg, r, depth + 1)
-                leaves = _split_value(r.value if r.value is not None else ast.Constant(value=None), idx)
+                leaves = _split_value(r.value if r.value is not None else ast.Constant(value=None), idx, self._rec(t))
                 if leaves is None:
                     leaves = [(None, None, [])]
                 for leaf, lidx, cfs in leaves:
@@ -268,7 +317,11 @@ def _local_test(f):
     kind = ("none", x_is_none) | ("truthy", pol) | ("eq", const, pol)."""
     def subject(e):
         e = strip_cast(e)
-        return e if isinstance(e, (ast.Name, ast.Call)) else None
+        if isinstance(e, (ast.Name, ast.Call)):
+            return e
+        # one part of a small result object kept in a local / returned by a call: `verdict.ok`, `route[1]`
+        b, proj = _peel(e)
+        return e if proj is not None and isinstance(b, (ast.Name, ast.Call)) and not (isinstance(b, ast.Name) and b.id in ("self", "cls")) else None
 
     if f.op == "truthy":
         a = subject(f.left)
@@ -284,6 +337,85 @@ def _local_test(f):
                     return a, ("eq", b.value, f.pos)
                 if f.op == "is" and isinstance(b.value, bool):
                     return a, ("eq", b.value, f.pos)
+            m = _member(b)
+            if a is not None and m is not None and _member(a) is None:
+                return a, ("eq", m, f.pos)        # compared with a member of an enumeration: `tag is _Verdict.OURS`
+    return None
+
+
+class _Member:
+    """`Class.MEMBER`: two members of the same enumeration are equal iff they are the same member"""
+
+    def __init__(self, cls: str, name: str) -> None:
+        self.cls, self.name = cls, name
+
+    def __eq__(self, o) -> bool:
+        return isinstance(o, _Member) and (self.cls, self.name) == (o.cls, o.name)
+
+    def __hash__(self) -> int:
+        return hash((self.cls, self.name))
+
+
+_ENUM_REPO: list = [None]
+
+
+def _enum_kind(clsname: str):
+    """"pure" for a subclass of Enum / Flag whose members equal nothing but themselves, "mixed" for IntEnum / StrEnum / (int, Enum),
+    None when no class of that name in the library is an enumeration (or several classes share the name)."""
+    repo = _ENUM_REPO[0]
+    ks = repo.classes.get(clsname, []) if repo is not None else []
+    if len(ks) != 1:
+        return None
+    bases = {b.split(".")[-1] for b in ks[0].all_base_names()}
+    if not bases & {"Enum", "IntEnum", "StrEnum", "Flag", "IntFlag"}:
+        return None
+    return "mixed" if bases & {"IntEnum", "StrEnum", "IntFlag", "int", "str", "bytes"} else "pure"
+
+
+def _member(e: ast.AST):
+    e = strip_cast(e)
+    if isinstance(e, ast.Attribute) and isinstance(e.value, ast.Name) and e.value.id.lstrip("_")[:1].isupper():
+        return _Member(e.value.id, e.attr)
+    if isinstance(e, ast.Attribute) and isinstance(e.value, ast.Attribute) and e.value.attr.lstrip("_")[:1].isupper() and chain(e) is not None:
+        return _Member(e.value.attr, e.attr)
+    return None
+
+
+def _peel(e: ast.AST):
+    """(base, projection) of `base.attr` / `base[const]`; (e, None) for anything else"""
+    e = strip_cast(e)
+    if isinstance(e, ast.Attribute):
+        return strip_cast(e.value), ("attr", e.attr)
+    if isinstance(e, ast.Subscript) and not isinstance(e.slice, ast.Slice):
+        i = const_value(e.slice)
+        if isinstance(i, int) and not isinstance(i, bool):
+            return strip_cast(e.value), i
+    return e, None
+
+
+_OPERATOR_TESTS = {"eq": ast.Eq, "ne": ast.NotEq, "lt": ast.Lt, "le": ast.LtE, "gt": ast.Gt, "ge": ast.GtE, "is_": ast.Is, "is_not": ast.IsNot}
+
+
+def _operator_call_as_test(fi: FuncInfo, e: ast.AST):
+    """The comparison / negation that a call of an operator-module function computes (None when e is not such a call)."""
+    e = strip_cast(e)
+    if not isinstance(e, ast.Call) or e.keywords or any(isinstance(a, ast.Starred) for a in e.args):
+        return None
+    f = e.func
+    if isinstance(f, ast.Attribute) and isinstance(f.value, ast.Name) and fi.module.imports.get(f.value.id) == ("operator", None):
+        nm = f.attr
+    elif isinstance(f, ast.Name) and fi.module.imports.get(f.id, (None, None))[0] == "operator" and not local_defs(fi, f.id) and not is_param(fi, f.id):
+        nm = fi.module.imports[f.id][1]
+    else:
+        return None
+    if nm in _OPERATOR_TESTS and len(e.args) == 2:
+        return ast.copy_location(ast.Compare(left=e.args[0], ops=[_OPERATOR_TESTS[nm]()], comparators=[e.args[1]]), e)
+    if nm == "contains" and len(e.args) == 2:
+        return ast.copy_location(ast.Compare(left=e.args[1], ops=[ast.In()], comparators=[e.args[0]]), e)
+    if nm == "not_" and len(e.args) == 1:
+        return ast.copy_location(ast.UnaryOp(op=ast.Not(), operand=e.args[0]), e)
+    if nm == "truth" and len(e.args) == 1:
+        return e.args[0]
     return None
 
 
@@ -306,6 +438,22 @@ _NEVER_NONE = (ast.Compare, ast.Tuple, ast.List, ast.Dict, ast.Set, ast.JoinedSt
 def _holds(kind, v: ast.AST):
     """Does a value written as expression v pass the test `kind`?  True / False / None (cannot tell)."""
     v = strip_cast(v)
+    if kind[0] == "eq" and isinstance(kind[1], _Member):
+        ek = _enum_kind(kind[1].cls)
+        if ek is None:
+            return None                       # not an enumeration of the library: `Class.CONSTANT` may be any value
+        m = _member(v)
+        if m is not None and m.cls == kind[1].cls:
+            return (m == kind[1]) == kind[2]
+        if isinstance(v, ast.Constant) and (v.value is None or ek == "pure"):
+            return (not kind[2])              # None / a plain constant is no member of the enumeration (IntEnum / StrEnum: left open)
+        return None
+    if _member(v) is not None and _enum_kind(_member(v).cls) is not None:
+        if kind[0] == "none":
+            return (not kind[1])              # a member is not None
+        if kind[0] == "eq":
+            return (not kind[2]) if _enum_kind(_member(v).cls) == "pure" else None
+        return None
     if isinstance(v, ast.UnaryOp) and isinstance(v.op, ast.Not):
         known = None if kind[0] != "none" else False
     elif isinstance(v, ast.Constant):
@@ -328,18 +476,25 @@ def _holds(kind, v: ast.AST):
     return known == kind[1]              # kind "none": known says whether the value is None
 
 
-def _split_value(val: ast.AST, idx):
-    """Leaves of a value expression: [(leaf expr, remaining tuple index | None, facts of the enclosing conditional expressions)]."""
+def _split_value(val: ast.AST, idx, rec=None):
+    """Leaves of a value expression: [(leaf expr, remaining projection (tuple index | ("attr", name)) | None, facts of the enclosing
+    conditional expressions)].  `rec(expr)` recognises the construction of a small result object (see _record_of)."""
     val = strip_cast(val)
     if isinstance(val, ast.IfExp):
-        a, b = _split_value(val.body, idx), _split_value(val.orelse, idx)
+        a, b = _split_value(val.body, idx, rec), _split_value(val.orelse, idx, rec)
         if a is None or b is None:
             return None
         t, f = _atoms_with_polarity(val.test, True), _atoms_with_polarity(val.test, False)
         return [(l, i, t + c) for l, i, c in a] + [(l, i, f + c) for l, i, c in b]
     if idx is not None:
-        if isinstance(val, (ast.Tuple, ast.List)) and not any(isinstance(e, ast.Starred) for e in val.elts) and 0 <= idx < len(val.elts):
-            return _split_value(val.elts[idx], None)
+        if isinstance(idx, int) and isinstance(val, (ast.Tuple, ast.List)) and not any(isinstance(e, ast.Starred) for e in val.elts) and 0 <= idx < len(val.elts):
+            return _split_value(val.elts[idx], None, rec)
+        if isinstance(val, ast.Constant):
+            return []                            # None (or another constant) has no parts: a test of a part never sees this value
+        r = rec(val) if rec is not None and isinstance(val, ast.Call) else None
+        if r is not None:
+            sel = _record_part(r, ("idx", idx) if isinstance(idx, int) else idx)
+            return _split_value(sel, None, rec) if sel is not None else None
         if isinstance(val, ast.Call):
             return [(val, idx, [])]
         return None
@@ -373,9 +528,10 @@ def _common(alts: list[list]) -> list:
 def _bind_args(t: FuncInfo, call: ast.Call):
     """parameter name -> argument expression of the caller (`self` -> the receiver); None when the binding is not plain."""
     a = t.node.args
-    if a.vararg is not None or a.kwarg is not None or any(isinstance(x, ast.Starred) for x in call.args) \
-            or any(k.arg is None for k in call.keywords):
+    if any(isinstance(x, ast.Starred) for x in call.args) or any(k.arg is None for k in call.keywords):
         return None
+    # *args / **kwargs of the callee are fine as long as this call puts nothing into them (checked below: no surplus
+    # positional argument, every keyword names a parameter)
     params = [p.arg for p in a.posonlyargs + a.args]
     mapping: dict[str, ast.AST] = {}
     if t.cls is not None and params and params[0] in ("self", "cls") and "staticmethod" not in t.decorator_names():
@@ -447,10 +603,128 @@ def _translate_expr(t: FuncInfo, e: ast.AST, mapping: dict):
     return out if ok[0] else None
 
 
+# ------------------------------------------------------------------------------------------ small result objects
+def _record_class(k) -> list[tuple[str, str, ast.AST | None]] | None:
+    """
+    (constructor parameter, attribute, default | None) in constructor order when class k is a plain record: a NamedTuple, a
+    dataclass without a hand-written __init__, or a class whose __init__ only stores its parameters (`self.a = a`).
+    """
+    names = {b.split(".")[-1].split("[")[0] for b in k.all_base_names()}
+    decos = {(chain(d.func if isinstance(d, ast.Call) else d) or "").split(".")[-1] for d in k.node.decorator_list}
+    own_init = k.lookup("__init__")
+    if own_init is not None and own_init.cls is not None and own_init.cls.name == "object":
+        own_init = None
+    if "NamedTuple" in names or ("dataclass" in decos and own_init is None and k.lookup("__new__") is None and k.lookup("__post_init__") is None):
+        out = []
+        for c in reversed(k.mro()):
+            for st in c.node.body:
+                if isinstance(st, ast.AnnAssign) and isinstance(st.target, ast.Name):
+                    ann = norm(st.annotation)
+                    if "ClassVar" in ann:
+                        continue
+                    out = [x for x in out if x[0] != st.target.id]
+                    out.append((st.target.id, st.target.id, st.value))
+        return out or None
+    if own_init is not None and k.lookup("__new__") is None:
+        a = own_init.node.args
+        if a.vararg is not None or a.kwarg is not None or a.kwonlyargs:
+            return None
+        params = [p.arg for p in a.posonlyargs + a.args][1:]
+        defaults = dict(zip(params[len(params) - len(a.defaults):], a.defaults)) if a.defaults else {}
+        attr_of: dict[str, str] = {}
+        for st in own_init.node.body:
+            if isinstance(st, ast.Expr) and isinstance(st.value, ast.Constant):
+                continue
+            tg = st.targets[0] if isinstance(st, ast.Assign) and len(st.targets) == 1 else getattr(st, "target", None) if isinstance(st, ast.AnnAssign) else None
+            v = strip_cast(st.value) if isinstance(st, (ast.Assign, ast.AnnAssign)) and st.value is not None else None
+            if not (isinstance(tg, ast.Attribute) and isinstance(tg.value, ast.Name) and tg.value.id == "self"
+                    and isinstance(v, ast.Name) and v.id in params and v.id not in attr_of):
+                return None
+            attr_of[v.id] = tg.attr
+        if not attr_of:
+            return None
+        return [(p, attr_of.get(p, "\0" + p), defaults.get(p)) for p in params]
+    return None
+
+
+def _factory_fields(e: ast.AST) -> list[tuple[str, str, ast.AST | None]] | None:
+    """fields of `namedtuple("X", "a b")` / `namedtuple("X", ["a", "b"])` / `NamedTuple("X", [("a", int), ...])`"""
+    e = strip_cast(e)
+    if not (isinstance(e, ast.Call) and (chain(e.func) or "").split(".")[-1] in ("namedtuple", "NamedTuple") and len(e.args) == 2):
+        return None
+    spec = e.args[1]
+    cv = const_value(spec)
+    if isinstance(cv, str):
+        names = cv.replace(",", " ").split()
+    elif isinstance(spec, (ast.Tuple, ast.List)):
+        names = []
+        for x in spec.elts:
+            if isinstance(x, (ast.Tuple, ast.List)) and x.elts:
+                x = x.elts[0]
+            v = const_value(x)
+            if not isinstance(v, str):
+                return None
+            names.append(v)
+    else:
+        return None
+    return [(n, n, None) for n in names] or None
+
+
+def _record_of(repo, module, e: ast.AST, depth: int = 0):
+    """
+    [(attribute | None, value expr)] when e builds a small immutable result object whose parts are exactly the given
+    expressions: a tuple / list display, or a call of a record class (see _record_class) / a namedtuple factory product.
+    Returns (parts, class | None) or None.
+    """
+    e = strip_cast(e)
+    if isinstance(e, (ast.Tuple, ast.List)) and not any(isinstance(x, ast.Starred) for x in e.elts):
+        return [(None, x) for x in e.elts], None
+    if not isinstance(e, ast.Call) or any(isinstance(a, ast.Starred) for a in e.args) or any(k.arg is None for k in e.keywords):
+        return None
+    k = repo.resolve_class_expr(module, e.func)
+    fields = None
+    if k is not None:
+        cache = repo.__dict__.setdefault("_c03_record_classes", {})
+        if k not in cache:
+            cache[k] = _record_class(k)
+        fields = cache[k]
+    elif isinstance(e.func, ast.Name):
+        r = repo.resolve_name(module, e.func.id)
+        if isinstance(r, tuple) and r[0] == "const":
+            fields = _factory_fields(r[2])
+    if not fields or len(e.args) > len(fields):
+        return None
+    given: dict[str, ast.AST] = {p: a for (p, _, _), a in zip(fields, e.args)}
+    for kw in e.keywords:
+        if kw.arg in given or kw.arg not in {p for p, _, _ in fields}:
+            return None
+        given[kw.arg] = kw.value
+    parts = []
+    for p, attr, default in fields:
+        v = given.get(p, default)
+        if v is None:
+            return None
+        parts.append((attr, v))
+    return parts, k
+
+
+def _record_part(rec, proj):
+    """the part of record `rec` (parts, class) selected by projection ("attr", name) / ("idx", i); None when it selects no part"""
+    parts, _ = rec
+    if proj[0] == "attr":
+        for a, v in parts:
+            if a == proj[1]:
+                return v
+    elif proj[0] == "idx" and isinstance(proj[1], int) and not isinstance(proj[1], bool) and -len(parts) <= proj[1] < len(parts):
+        return parts[proj[1]][1]
+    return None
+
+
 def _decisions(ctx: Ctx) -> _Decisions:
     d = ctx.__dict__.get("_c03_decisions_obj")
     if d is None:
         d = ctx.__dict__["_c03_decisions_obj"] = _Decisions(ctx)
+    _ENUM_REPO[0] = ctx.repo
     return d
 
 
@@ -476,6 +750,183 @@ def _is_abstract(fi: FuncInfo) -> bool:
     return any("abstractmethod" in d for d in fi.decorator_names())
 
 
+def _struct_format(repo, module, cls, e: ast.AST, fi: FuncInfo | None = None, depth: int = 0):
+    """Format string of the precompiled struct e denotes: `Struct(">H")` written out, a module / class constant, a local, or an
+    instance attribute every store of which is `Struct(<the same constant format>)`.  None when it is not known."""
+    if e is None or depth > 5:
+        return None
+    e = strip_cast(e)
+    if isinstance(e, ast.Call) and chain(e.func) in ("Struct", "struct.Struct") and len(e.args) == 1 and not e.keywords:
+        v = repo.resolve_const(module, e.args[0], cls)
+        return v if isinstance(v, (str, bytes)) else None
+    if isinstance(e, ast.Name):
+        if fi is not None and (is_param(fi, e.id) or local_defs(fi, e.id)):
+            d = single_def(fi, e.id) if not is_param(fi, e.id) else None
+            return _struct_format(repo, module, cls, d[0], fi, depth + 1) if d is not None and d[1] is None else None
+        r = repo.resolve_name(module, e.id)
+        if isinstance(r, tuple) and r[0] == "const":
+            return _struct_format(repo, r[1], None, r[2], None, depth + 1)
+        return None
+    if isinstance(e, ast.Attribute):
+        if isinstance(e.value, ast.Name) and e.value.id in ("self", "cls") and cls is not None:
+            k = cls
+        else:
+            k = repo.resolve_class_expr(module, e.value) or (repo.type_of_expr(fi, e.value) if fi is not None else None)
+        if k is None:
+            return None
+        a = k.lookup_attr(e.attr)
+        if a is not None:
+            owner = next(kk for kk in k.mro() if e.attr in kk.attrs)
+            return _struct_format(repo, owner.module, owner, a, None, depth + 1)
+        fmts = set()
+        for kk in k.mro():
+            for m in kk.methods.values():
+                for st in walk_no_nested(m.node):
+                    if isinstance(st, ast.Assign) and any(chain(t) == f"self.{e.attr}" for t in st.targets):
+                        fmts.add(_struct_format(repo, kk.module, kk, st.value, m, depth + 1))
+        if len(fmts) == 1 and None not in fmts:
+            return fmts.pop()
+    return None
+
+
+def _alternatives(ctx: Ctx, scope, e: ast.AST, depth: int = 0):
+    """
+    The expressions whose value e can have, each with the scope (module, function | None, class | None) it is written in:
+    through all definitions of a local, both arms of a conditional expression, the arguments at every call of the function
+    for a parameter, module / class constants, the selected part of a small result object, every value of a dict / tuple
+    display it is picked from.  None when some alternative is not spelled out in the library.
+    """
+    repo = ctx.repo
+    module, fi, cls = scope
+    if e is None or depth > 8:
+        return None
+    e = strip_cast(e)
+    if isinstance(e, ast.Constant):
+        return [(scope, e)]
+    if isinstance(e, ast.IfExp):
+        a, b = _alternatives(ctx, scope, e.body, depth + 1), _alternatives(ctx, scope, e.orelse, depth + 1)
+        return None if a is None or b is None else a + b
+    if isinstance(e, ast.Name):
+        if fi is not None and local_defs(fi, e.id):
+            out = []
+            for _, v, idx in local_defs(fi, e.id):
+                if v is None:
+                    return None
+                alts = _alternatives(ctx, scope, v, depth + 1)
+                if alts is not None and idx is not None:
+                    alts = _project(ctx, alts, ("idx", idx), depth + 1)
+                if alts is None:
+                    return None
+                out += alts
+            return out
+        if fi is not None and is_param(fi, e.id):
+            out = []
+            n_sites = 0
+            for _, cfi, call in repo.callers_of_name(fi.name):
+                if cfi is None or fi not in repo.resolve_call(cfi, call):
+                    if cfi is None or (isinstance(call.func, ast.Attribute) and not repo.resolve_call(cfi, call)):
+                        # a call by name that cannot be resolved may be a call of this function
+                        if isinstance(call.func, ast.Attribute) and fi.cls is not None:
+                            return None
+                    continue
+                m = _bind_args(fi, call)
+                if m is None or e.id not in m:
+                    return None
+                n_sites += 1
+                alts = _alternatives(ctx, (cfi.module, cfi, cfi.cls) if m[e.id] in ast.walk(call) else (module, None, cls), m[e.id], depth + 1)
+                if alts is None:
+                    return None
+                out += alts
+            return out if n_sites else None
+        r = repo.resolve_name(module, e.id)
+        if isinstance(r, tuple) and r[0] == "const":
+            return _alternatives(ctx, (r[1], None, None), r[2], depth + 1)
+        return [(scope, e)]
+    if isinstance(e, ast.Attribute) and isinstance(e.value, ast.Name) and e.value.id in ("self", "cls") and cls is not None:
+        a = cls.lookup_attr(e.attr)
+        if a is None:
+            return None
+        owner = next(kk for kk in cls.mro() if e.attr in kk.attrs)
+        return _alternatives(ctx, (owner.module, None, owner), a, depth + 1)
+    if isinstance(e, (ast.Attribute, ast.Subscript)) and not (isinstance(e, ast.Subscript) and isinstance(e.slice, ast.Slice)):
+        base = _alternatives(ctx, scope, e.value, depth + 1)
+        if base is None:
+            return None
+        if isinstance(e, ast.Attribute):
+            return _project(ctx, base, ("attr", e.attr), depth + 1)
+        i = const_value(e.slice)
+        return _project(ctx, base, ("idx", i) if isinstance(i, int) and not isinstance(i, bool) else ("key", e.slice), depth + 1)
+    return [(scope, e)]
+
+
+def _project(ctx: Ctx, alts: list, proj, depth: int):
+    out = []
+    for sc, x in alts:
+        x = strip_cast(x)
+        if isinstance(x, ast.Dict) and proj[0] in ("key", "idx"):
+            if any(v is None for v in x.keys):
+                return None
+            want = const_value(proj[1]) if proj[0] == "key" else proj[1]
+            vals = [v for k_, v in zip(x.keys, x.values) if want is NOCONST_ or const_value(k_) is NOCONST_ or const_value(k_) == want]
+            for v in vals:
+                sub = _alternatives(ctx, sc, v, depth + 1)
+                if sub is None:
+                    return None
+                out += sub
+            continue
+        rec = _record_of(ctx.repo, sc[0], x)
+        if rec is None:
+            return None
+        if proj[0] == "key":
+            parts = [v for _, v in rec[0]]
+        else:
+            sel = _record_part(rec, proj)
+            if sel is None:
+                return None
+            parts = [sel]
+        for v in parts:
+            sub = _alternatives(ctx, sc, v, depth + 1)
+            if sub is None:
+                return None
+            out += sub
+    return out
+
+
+def _method_names_called(ctx: Ctx, fi: FuncInfo, call: ast.Call) -> set[str]:
+    """
+    Names of the methods `call` may invoke when the method is picked by name at run time:
+    `getattr(obj, NAME)(...)`, `methodcaller(NAME, ...)(obj)`, also through a local that holds the picked callable.
+    Only names that are spelled out in the library (constants, table entries, arguments at every call) are reported.
+    """
+    f = resolve(fi, call.func) if isinstance(strip_cast(call.func), ast.Name) else strip_cast(call.func)
+    name_expr = None
+    if isinstance(f, ast.Call) and chain(f.func) in ("getattr", "builtins.getattr") and len(f.args) >= 2:
+        name_expr = f.args[1]
+    elif isinstance(f, ast.Call) and (chain(f.func) or "").split(".")[-1] == "methodcaller" and f.args:
+        name_expr = f.args[0]
+    if name_expr is None:
+        return set()
+    alts = _alternatives(ctx, (fi.module, fi, fi.cls), name_expr)
+    if alts is None:
+        return set()
+    return {x.value for _, x in alts if isinstance(x, ast.Constant) and isinstance(x.value, str)}
+
+
+class _FlowTyper(BytesTyper):
+    """BytesTyper that also knows the parameters some caller on the receive path passes a bytes value to (an unannotated helper)"""
+
+    def __init__(self, repo, fi: FuncInfo, bytes_params: set[str]) -> None:
+        super().__init__(repo, fi)
+        self.bytes_params = bytes_params
+
+    def is_bytes(self, e: ast.AST, depth: int = 0) -> bool:
+        e2 = strip_cast(e)
+        if isinstance(e2, ast.Name) and e2.id in self.bytes_params and is_param(self.fi, e2.id) and not local_defs(self.fi, e2.id) \
+                and annotation_text(self.fi, e2.id) is None:
+            return True
+        return super().is_bytes(e, depth)
+
+
 class _Lengths(LengthAnalysis):
     """
     LengthAnalysis that also understands equivalent spellings of a length guard:
@@ -486,6 +937,73 @@ class _Lengths(LengthAnalysis):
 
     _site: ast.AST | None = None
     decisions: "_Decisions | None" = None
+
+    def _const(self, e: ast.AST, depth: int = 0):
+        """integer constants, also the ones derived from a struct layout: `HEADER.size`, `calcsize("!I??")`, `23 + HEADER.size`,
+        a local that is assigned such a value once"""
+        v = super()._const(e)
+        if v is not None or e is None or depth > 6:
+            return v
+        e = strip_cast(e)
+        if isinstance(e, ast.Attribute) and e.attr == "size":
+            f = _struct_format(self.repo, self.fi.module, self.fi.cls, e.value, self.fi)
+        elif isinstance(e, ast.Call) and chain(e.func) in ("calcsize", "struct.calcsize") and len(e.args) == 1 and not e.keywords:
+            f = self.repo.resolve_const(self.fi.module, e.args[0], self.fi.cls)
+        else:
+            f = None
+            if isinstance(e, ast.BinOp) and isinstance(e.op, (ast.Add, ast.Sub, ast.Mult)):
+                l, r = self._const(e.left, depth + 1), self._const(e.right, depth + 1)
+                if l is not None and r is not None:
+                    return l + r if isinstance(e.op, ast.Add) else l - r if isinstance(e.op, ast.Sub) else l * r
+            if isinstance(e, ast.UnaryOp) and isinstance(e.op, ast.USub):
+                x = self._const(e.operand, depth + 1)
+                return -x if x is not None else None
+            if isinstance(e, ast.Name) and not is_param(self.fi, e.id):
+                d = single_def(self.fi, e.id)
+                if d is not None and d[1] is None and not any(isinstance(n, (ast.Call, ast.Subscript)) and not (
+                        isinstance(n, ast.Call) and chain(n.func) in ("calcsize", "struct.calcsize", "Struct", "struct.Struct")) for n in ast.walk(d[0])):
+                    return self._const(d[0], depth + 1)
+            return None
+        if isinstance(f, (str, bytes)):
+            try:
+                return struct.calcsize(f)
+            except struct.error:
+                return None
+        return None
+
+    def index_sites(self):
+        """constant-index reads, also spelled `itemgetter(22)(data)` / `data.__getitem__(22)`"""
+        yield from super().index_sites()
+        for n in walk_no_nested(self.fi.node):
+            if not isinstance(n, ast.Call) or n.keywords or len(n.args) != 1 or isinstance(n.args[0], ast.Starred):
+                continue
+            f = resolve(self.fi, n.func) if isinstance(n.func, ast.Name) else n.func
+            base = idx = None
+            if isinstance(f, ast.Call) and (chain(f.func) or "").split(".")[-1] == "itemgetter" and len(f.args) == 1 and not f.keywords:
+                base, idx = n.args[0], self._const(f.args[0])
+            elif isinstance(f, ast.Attribute) and f.attr == "__getitem__":
+                base, idx = f.value, self._const(n.args[0])
+            if base is not None and idx is not None and self.typer.is_bytes(base):
+                yield n, base, (idx + 1 if idx >= 0 else -idx)
+
+    def unpack_sites(self):
+        """fixed-format reads, also through a precompiled struct: `HEADER.unpack_from(packet, 23)`, `Struct("!I").unpack_from(b)`"""
+        yield from super().unpack_sites()
+        for n in walk_no_nested(self.fi.node):
+            if isinstance(n, ast.Call) and isinstance(n.func, ast.Attribute) and n.func.attr == "unpack_from" \
+                    and chain(n.func) not in ("struct.unpack_from",):
+                fmt = _struct_format(self.repo, self.fi.module, self.fi.cls, n.func.value, self.fi)
+                buf = arg(n, 0, "buffer")
+                if not isinstance(fmt, (str, bytes)) or buf is None:
+                    continue
+                offe = arg(n, 1, "offset")
+                off = 0 if offe is None else self._const(offe)
+                if off is None:
+                    continue
+                try:
+                    yield n, buf, off + struct.calcsize(fmt)
+                except struct.error:
+                    continue
 
     def min_len(self, e: ast.AST, site: ast.AST):
         prev, self._site = self._site, site
@@ -700,6 +1218,7 @@ def rule_bounds(ctx: Ctx) -> None:
         cfg = ctx.cfg(fi)
         la = _Lengths(repo, fi, cfg, param_min[fi])
         la.decisions = _decisions(ctx)
+        la.typer = _FlowTyper(repo, fi, set(param_min[fi]))
         analysed.add(fi)
         # 1. local sites
         for node, base, need in [*la.index_sites(), *la.unpack_sites()]:
@@ -707,6 +1226,11 @@ def rule_bounds(ctx: Ctx) -> None:
                 continue
             have, used = la.min_len(base, node)
             ok = have >= need
+            if not ok:
+                # asking forgiveness instead of permission: the read sits under a handler for exactly the exception a short value raises
+                excs = ("struct.error", "error") if isinstance(node, ast.Call) and call_name(node) == "unpack_from" else ("IndexError", "LookupError")
+                if _handled(node, fi, excs):
+                    ok, used = True, [f"inside a handler for {excs[0]}"]
             n_sites += 1
             ctx.instances = [i for i in ctx.instances if not (i["rule"].endswith("bounds-before-index")
                                                               and i["at"] == fi.where and i["instance"].startswith(norm(node) + " "))]
@@ -719,6 +1243,13 @@ def rule_bounds(ctx: Ctx) -> None:
                       "IndexError/struct.error into the transport", used)
         # 1b. calls into the binary extension (no documented exception contract) must be contained by a catch-all handler
         for call in calls(fi):
+            picked = _method_names_called(ctx, fi, call) & FOREIGN_CALLS if call_name(call) is None or call_name(call) not in FOREIGN_CALLS else set()
+            if picked:
+                ctx.check(protected(call, fi), "bounds-before-index", fi, call,
+                          f"foreign call {'/'.join(sorted(picked))} (picked by name in `{norm(call.func)[:50]}`) contained by a catch-all handler",
+                          f"`{norm(call)[:60]}` may invoke {'/'.join(sorted(picked))} (ipv8_rust_tunnels, raises RuntimeError on a tag mismatch and ValueError on "
+                          f"short input) on the unprotected receive path (via {via[fi]}) without a catch-all handler: a forged cell raises into the transport")
+                continue
             if call_name(call) in FOREIGN_CALLS and not protected(call, fi):
                 ctx.check(False, "bounds-before-index", fi, call, f"foreign call {norm(call.func)} contained by try/except Exception",
                           f"`{norm(call)[:60]}` (ipv8_rust_tunnels, raises RuntimeError on a tag mismatch and ValueError on short input) is reached on the "
@@ -738,6 +1269,12 @@ def rule_bounds(ctx: Ctx) -> None:
                 targets = _callable_targets(repo, fi, call)
             if not targets:
                 targets = _unique_method(repo, call)
+            # a small callable object built here (a class with __call__ that replaces a closure) is invoked later on this path:
+            # its body belongs to the region; nothing is known about the arguments it will be called with
+            built = repo.resolve_class_expr(fi.module, call.func)
+            later = built.lookup("__call__") if built is not None else None
+            if later is not None and not _is_abstract(later):
+                targets = [*targets, later]
             for t in targets:
                 if t.node is fi.node or t.name in ("__init__",):
                     continue
@@ -745,7 +1282,7 @@ def rule_bounds(ctx: Ctx) -> None:
                 tparams = t.params()
                 shift = 1 if t.cls is not None and tparams and tparams[0] in ("self", "cls") else 0
                 newmin = {}
-                for i, a in enumerate(call.args):
+                for i, a in enumerate(call.args if t is not later else []):
                     if isinstance(a, ast.Starred):
                         break
                     pi = i + shift
@@ -796,32 +1333,131 @@ def rule_dispatch(ctx: Ctx) -> None:
                 return False
             return all(everywhere(h, c, holds, depth + 1) for h, c in sites[g])
 
-        def table_value(g: FuncInfo, e: ast.AST, depth: int = 0) -> bool:
-            """e denotes (something taken from) the handler table: the table itself, a local assigned from it, a parameter bound to it."""
-            if e is None or depth > 3:
+        active: set = set()
+
+        def is_table(g: FuncInfo, e: ast.AST) -> bool:
+            """e is the handler table: spelled out, through a local alias, or - in a helper - through a parameter that every call of the
+            helper binds to it (`_lookup(self.decode_map, ..)`, `_route(self, ..)` with `overlay.decode_map` inside)"""
+            if e is None:
                 return False
-            if _mentions_table(g, e, table):
+            r = resolve(g, e)
+            if chain(r) == table:
                 return True
+            if g is fi or chain(r) is None or not (names_in(r) & set(g.params())):
+                return False
+            ups = _in_root_terms(g, r, fi, sites)
+            return bool(ups) and all(chain(resolve(fi, u)) == table for u in ups)
+
+        def table_value(g: FuncInfo, e: ast.AST, depth: int = 0, proj: tuple = ()) -> bool:
+            """
+            e (followed by the projections `proj`: ("attr", name) | ("idx", i) | ("any",)) may denote something taken from the
+            handler table: the table itself or an entry of it, a local one of whose definitions is such a value, a parameter
+            bound to one at a call site of the region, a part of a small result object (tuple, NamedTuple, dataclass, record
+            class) built from one - locally or by a helper that returns it -, a callable that wraps one (partial).  A value
+            flow over-approximation: whatever can be a handler is one; the parts of a result object that are spelled out and
+            are not the selected part are not.
+            """
+            if e is None or depth > 10:
+                return False
             e = strip_cast(e)
-            if isinstance(e, ast.Name):
-                if any(v is not None and _mentions_table(g, v, table) for _, v, _ in local_defs(g, e.id)):
+            base = e
+            while True:                            # self.decode_map[k] / self.decode_map.get(k) / t[k] with t = self.decode_map
+                if is_table(g, base):
                     return True
-                if g is not fi and is_param(g, e.id) and not local_defs(g, e.id):
-                    for h, c in sites.get(g, []):
-                        m = _bind_args(g, c)
-                        if m is not None and e.id in m and table_value(h, m[e.id], depth + 1):
+                nxt = base.value if isinstance(base, (ast.Subscript, ast.Attribute)) else base.func if isinstance(base, ast.Call) else None
+                if nxt is None:
+                    break
+                base = strip_cast(nxt)
+            if isinstance(e, ast.Name):
+                key = (g, e.id, proj)
+                if key in active:
+                    return False
+                active.add(key)
+                try:
+                    defs = local_defs(g, e.id)
+                    for st_, v, idx in defs:
+                        if v is None:
+                            if isinstance(st_, (ast.For, ast.AsyncFor)) and table_value(g, st_.iter, depth + 1, (("any",), *proj)):
+                                return True
+                            continue
+                        if table_value(g, v, depth + 1, (("idx", idx), *proj) if idx is not None else proj):
                             return True
+                    if g is not fi and is_param(g, e.id) and not defs:
+                        for h, c in sites.get(g, []):
+                            m = _bind_args(g, c)
+                            if m is not None and e.id in m and table_value(h, m[e.id], depth + 1, proj):
+                                return True
+                finally:
+                    active.discard(key)
+                return False
+            if isinstance(e, ast.IfExp):
+                return table_value(g, e.body, depth + 1, proj) or table_value(g, e.orelse, depth + 1, proj)
+            if isinstance(e, ast.BoolOp):
+                return any(table_value(g, v, depth + 1, proj) for v in e.values)
+            if isinstance(e, ast.NamedExpr):
+                return table_value(g, e.value, depth + 1, proj)
+            if isinstance(e, ast.Attribute):
+                return table_value(g, e.value, depth + 1, (("attr", e.attr), *proj))
+            if isinstance(e, ast.Subscript) and not isinstance(e.slice, ast.Slice):
+                i = const_value(e.slice)
+                return table_value(g, e.value, depth + 1, ((("idx", i) if isinstance(i, int) and not isinstance(i, bool) else ("any",)), *proj))
+            if isinstance(e, ast.Dict):
+                return any(v is not None and table_value(g, v, depth + 1, proj[1:]) for v in e.values)
+            rec = _record_of(repo, g.module, e)
+            if rec is not None:
+                parts, k = rec
+                if proj:
+                    sel = _record_part(rec, proj[0])
+                    if sel is not None:
+                        return table_value(g, sel, depth + 1, proj[1:])
+                    if proj[0][0] == "attr" and k is not None:
+                        # a method of the result object: it may invoke the handler only if it calls one of the object's parts
+                        m = k.lookup(proj[0][1])
+                        if m is None:
+                            return False
+                        held = {a for a, v in parts if a is not None and table_value(g, v, depth + 1)}
+                        return any((chain(c2.func) or "").startswith(tuple(f"self.{a}" for a in held)) for c2 in calls(m)) if held else False
+                    if proj[0][0] == "attr":
+                        return False                       # tuple.count / tuple.index
+                return any(table_value(g, v, depth + 1, proj[1:]) for _, v in parts)
+            if isinstance(e, ast.Call):
+                ts = [t for t in repo.resolve_call(g, e) if not _is_abstract(t) and t is not g and t.name != "__init__"]
+                if ts and len(ts) <= 4:
+                    known = True
+                    for t in ts:
+                        if t.is_async or any(isinstance(n, (ast.Yield, ast.YieldFrom)) for n in walk_no_nested(t.node)):
+                            known = False
+                            continue
+                        for r in walk_no_nested(t.node):
+                            if isinstance(r, ast.Return) and r.value is not None:
+                                if t in sites or t.cls is None:
+                                    # parameters of a helper of the region are bound through its call sites; a plain function
+                                    # receives the table only through its arguments (checked below)
+                                    if table_value(t, r.value, depth + 1, proj):
+                                        return True
+                                else:
+                                    known = False
+                    if known and not any(table_value(g, a, depth + 1) for a in [*e.args, *[kw.value for kw in e.keywords]]):
+                        return False
+                # a callable / object that receives a handler may hand it back or call it: partial(handler, ...), Runner(handler)
+                if any(table_value(g, a.value if isinstance(a, ast.Starred) else a, depth + 1) for a in [*e.args, *[kw.value for kw in e.keywords]]):
+                    return True
+                # a method of an object that holds a handler may hand it back (not: the result of calling the handler itself)
+                return isinstance(e.func, ast.Attribute) and not table_value(g, e.func, depth + 1) and table_value(g, e.func.value, depth + 1)
             return False
 
         reads: list[tuple[FuncInfo, ast.AST]] = []
         for g in region:
             for n in walk_no_nested(g.node):
                 if isinstance(n, ast.Subscript) and isinstance(n.ctx, ast.Load) and not isinstance(n.slice, ast.Slice) \
-                        and chain(resolve(g, n.value)) == table:
+                        and is_table(g, n.value):
                     reads.append((g, n))
-                elif isinstance(n, ast.Call) and isinstance(n.func, ast.Attribute) and n.func.attr == "get" \
-                        and chain(resolve(g, n.func.value)) == table:
+                elif isinstance(n, ast.Call) and isinstance(n.func, ast.Attribute) and n.func.attr in ("get", "__getitem__") \
+                        and is_table(g, n.func.value):
                     reads.append((g, n))
+                elif isinstance(n, ast.Call) and isinstance(strip_cast(n.func), ast.Call) and (chain(strip_cast(n.func).func) or "").split(".")[-1] == "itemgetter" \
+                        and len(n.args) == 1 and is_table(g, n.args[0]):
+                    reads.append((g, n))                 # itemgetter(msg_id)(self.decode_map)
         ctx.anchor(reads, f"{table}[...] read in {clsname}.{meth}")
         for g, rd in reads:
             shown: list[str] = []
@@ -831,13 +1467,18 @@ def rule_dispatch(ctx: Ctx) -> None:
                 shown.extend(str(f) for f in facts)
                 return any(_is_prefix_fact(repo, h, f) for f in facts)
             ok = everywhere(g, rd, has_prefix)
+            if not ok and g is not fi:
+                # the comparison written with the helper's own names (`overlay._prefix == packet[:22]`): the same facts in the anchor's
+                # terms, once per chain of calls that reaches the helper
+                per_chain = _facts_in_root_terms(ctx, dec, g, rd, fi, sites)
+                ok = bool(per_chain) and all(any(_is_prefix_fact(repo, fi, f) for f in fs) for fs in per_chain)
             ctx.check(ok, "prefix-before-dispatch", g, rd,
                       f"{clsname}.{meth}: handler lookup dominated by self._prefix == data[:22]",
                       "a datagram whose first 22 bytes are not the overlay's prefix can reach the handler table",
                       shown)
         # containment: the looked-up handler is called only inside try/except Exception
         hcalls = [(g, c) for g in region for c in calls(g) if table_value(g, c.func)
-                  and not (isinstance(c.func, ast.Attribute) and chain(resolve(g, c.func.value)) == table)]   # a dict method of the table itself
+                  and not (isinstance(c.func, ast.Attribute) and is_table(g, c.func.value))]   # a dict method of the table itself
         ctx.anchor(hcalls, f"handler invocation in {clsname}.{meth}")
         for g, c in hcalls:
             ctx.check(everywhere(g, c, lambda h, n: protected(n, h)), "handler-contained", g, c,
@@ -850,6 +1491,10 @@ def rule_dispatch(ctx: Ctx) -> None:
             for c in calls(g, "self.register_anonymous_task"):
                 ig = arg(c, None, "ignore")
                 ig = resolve(g, ig) if ig is not None else None
+                if isinstance(ig, (ast.Name, ast.Attribute)):
+                    alts = _alternatives(ctx, (g.module, g, g.cls), ig)
+                    if alts is not None and len(alts) == 1:
+                        ig = strip_cast(alts[0][1])
                 ok = ig is not None and isinstance(ig, (ast.Tuple, ast.List, ast.Set)) and any(chain(e) == "Exception" for e in ig.elts)
                 ctx.check(ok, "handler-contained", g, c, f"{clsname}.{meth}: coroutine handler registered with ignore=(Exception,)",
                           "exceptions of coroutine handlers are not ignored by the task manager")
@@ -858,7 +1503,7 @@ def rule_dispatch(ctx: Ctx) -> None:
     st = [s for s, t in _stores(init, "self._prefix")]
     ctx.anchor(st, "self._prefix assignment")
     for s in st:
-        parts = _concat_parts(init, s.value)
+        parts = _concat_parts(init, s.value, repo)
         ok = len(parts) == 3 and isinstance(parts[0], ast.Constant) and parts[0].value == b"\x00" \
             and chain(parts[1]) == "self.version" and chain(parts[2]) == "self.community_id"
         ctx.check(ok, "prefix-before-dispatch", init, s, "prefix = 0x00 + version + community_id",
@@ -959,11 +1604,25 @@ def _value_leaves(repo, fi: FuncInfo, e: ast.AST, region: list, seen: set | None
                 if isinstance(v, (ast.Tuple, ast.List)) and 0 <= idx < len(v.elts) and not any(isinstance(x, ast.Starred) for x in v.elts):
                     out.extend(_value_leaves(repo, fi, v.elts[idx], region, seen, depth + 1))
                 else:
-                    out.append((fi, None))
+                    out.extend(_leaf_parts(repo, _value_leaves(repo, fi, v, region, seen, depth + 1), ("idx", idx), region, seen, depth + 1))
             else:
                 out.extend(_value_leaves(repo, fi, val, region, seen, depth + 1))
         return out
-    if isinstance(e, ast.Call) and isinstance(e.func, ast.Attribute) and isinstance(e.func.value, ast.Name) and e.func.value.id == "self":
+    proj = None
+    if isinstance(e, ast.Attribute) and not (isinstance(e.value, ast.Name) and e.value.id in ("self", "cls")):
+        proj = ("attr", e.attr)
+    elif isinstance(e, ast.Subscript) and not isinstance(e.slice, ast.Slice) and isinstance(const_value(e.slice), int) \
+            and not isinstance(const_value(e.slice), bool):
+        proj = ("idx", const_value(e.slice))
+    if proj is not None and isinstance(strip_cast(e.value), (ast.Name, ast.Call)) and chain(resolve(fi, e.value)) not in ("self._prefix_map", "self._listeners"):
+        # one part of a small result object (`selection.listeners`, `picked[0]`): the values of that part wherever the object is built
+        base = _value_leaves(repo, fi, e.value, region, seen, depth + 1)
+        parts = _leaf_parts(repo, base, proj, region, seen, depth + 1)
+        if all(x is not None for _, x in parts) and parts:
+            return parts
+        return [(fi, e)]
+    if isinstance(e, ast.Call) and isinstance(e.func, (ast.Attribute, ast.Name)) and (isinstance(e.func, ast.Name) or (
+            isinstance(e.func.value, ast.Name) and e.func.value.id == "self")):
         targets = [t for t in repo.resolve_call(fi, e) if t in region and t is not fi]
         if len(targets) == 1 and not targets[0].is_async:
             t = targets[0]
@@ -987,6 +1646,19 @@ def _value_leaves(repo, fi: FuncInfo, e: ast.AST, region: list, seen: set | None
                     out.extend(_value_leaves(repo, t, src, region, seen, depth + 1) if src is not None else [(t, None)])
                 return out
     return [(fi, e)]
+
+
+def _leaf_parts(repo, leaves: list, proj, region: list, seen: set, depth: int) -> list:
+    """the part `proj` of every leaf that builds a small result object; (function, None) for a leaf that is something else"""
+    out = []
+    for h, leaf in leaves:
+        rec = _record_of(repo, h.module, leaf) if leaf is not None else None
+        sel = _record_part(rec, proj) if rec is not None else None
+        if sel is None:
+            out.append((h, None))
+        else:
+            out.extend(_value_leaves(repo, h, sel, region, seen, depth + 1))
+    return out
 
 
 def _in_root_terms(g: FuncInfo, e: ast.AST, root: FuncInfo, sites: dict, depth: int = 0) -> list:
@@ -1093,12 +1765,19 @@ def _is_prefix_fact(repo, fi: FuncInfo, f) -> bool:
 
     def is_head(e):
         e = resolve(fi, e)
-        if not (isinstance(e, ast.Subscript) and isinstance(e.slice, ast.Slice) and e.slice.step is None):
+        b = _slice_bounds(repo, fi, e) if isinstance(e, ast.Subscript) else None
+        if b is None:
             return False
-        lo, up = e.slice.lower, e.slice.upper
+        lo, up = b
         if lo is not None and repo.resolve_const(fi.module, lo, fi.cls) != 0:
             return False
-        return up is not None and repo.resolve_const(fi.module, up, fi.cls) == 22 and _is_bytes_expr(repo, fi, e.value)
+        if up is None or not _is_bytes_expr(repo, fi, e.value):
+            return False
+        if repo.resolve_const(fi.module, up, fi.cls) == 22:
+            return True
+        # as many bytes as the prefix has (the same predicate as startswith: the prefix is checked to be the 22-byte one)
+        u = resolve(fi, up)
+        return isinstance(u, ast.Call) and chain(u.func) == "len" and len(u.args) == 1 and is_own_prefix(u.args[0])
 
     if f.op == "eq" and f.pos and f.right is not None:
         return (is_own_prefix(f.left) and is_head(f.right)) or (is_own_prefix(f.right) and is_head(f.left))
@@ -1114,8 +1793,16 @@ def _is_pmap(fi: FuncInfo, e: ast.AST) -> bool:
     return chain(resolve(fi, e)) == "self._prefix_map"
 
 
-def _concat_parts(fi: FuncInfo, v: ast.AST) -> list[ast.AST]:
+def _concat_parts(fi: FuncInfo, v: ast.AST, repo=None, depth: int = 0) -> list[ast.AST]:
     v = resolve(fi, v)
+    if repo is not None and depth < 2 and isinstance(v, ast.Call) and isinstance(v.func, ast.Attribute) and isinstance(v.func.value, ast.Name) \
+            and v.func.value.id in ("self", "cls") and not v.args and not v.keywords and fi.cls is not None:
+        # `self._prefix = self._build_prefix()`: what the one implementation of the helper returns (written with the same `self`)
+        ts = repo.dispatch(fi.cls, v.func.attr)
+        if len(ts) == 1 and not ts[0].is_async:
+            rets = [r for r in walk_no_nested(ts[0].node) if isinstance(r, ast.Return)]
+            if len(rets) == 1 and rets[0].value is not None:
+                return _concat_parts(ts[0], rets[0].value, repo, depth + 1)
     if isinstance(v, ast.BinOp) and isinstance(v.op, ast.Add):
         return _concat_parts(fi, v.left) + _concat_parts(fi, v.right)
     if isinstance(v, ast.Call) and isinstance(v.func, ast.Attribute) and v.func.attr == "join" and len(v.args) == 1 and not v.keywords \
@@ -1123,6 +1810,36 @@ def _concat_parts(fi: FuncInfo, v: ast.AST) -> list[ast.AST]:
         seq = resolve(fi, v.args[0])
         if isinstance(seq, (ast.Tuple, ast.List)) and not any(isinstance(e, ast.Starred) for e in seq.elts):
             return [p for e in seq.elts for p in _concat_parts(fi, e)]       # b"".join((a, b, c)) == a + b + c
+    if isinstance(v, ast.Call) and (chain(v.func) or "").split(".")[-1] == "reduce" and len(v.args) in (2, 3) and not v.keywords \
+            and (chain(v.args[0]) or "").split(".")[-1] in ("add", "concat", "iadd", "iconcat"):
+        seq = resolve(fi, v.args[1])
+        if isinstance(seq, (ast.Tuple, ast.List)) and not any(isinstance(e, ast.Starred) for e in seq.elts):
+            init = _concat_parts(fi, v.args[2]) if len(v.args) == 3 else []
+            init = [p for p in init if not (isinstance(p, ast.Constant) and p.value == b"")]
+            return init + [p for e in seq.elts for p in _concat_parts(fi, e)]   # reduce(add, (a, b, c)) == a + b + c
+    if isinstance(v, ast.BinOp) and isinstance(v.op, ast.Mod) and isinstance(v.left, ast.Constant) and isinstance(v.left.value, bytes):
+        # b"\x00%s%s" % (a, b): literal pieces and %s / %b fields in order
+        import re as _re
+        seq = resolve(fi, v.right)
+        args = list(seq.elts) if isinstance(seq, ast.Tuple) else [v.right]
+        pieces = _re.split(rb"(%[sb])", v.left.value)
+        if b"%" not in b"".join(x for x in pieces if x not in (b"%s", b"%b")) and sum(1 for x in pieces if x in (b"%s", b"%b")) == len(args) \
+                and not any(isinstance(a, ast.Starred) for a in args):
+            out, it = [], iter(args)
+            for x in pieces:
+                if x in (b"%s", b"%b"):
+                    out += _concat_parts(fi, next(it))
+                elif x:
+                    out.append(ast.copy_location(ast.Constant(value=x), v))
+            return out
+    if isinstance(v, ast.Call) and chain(v.func) == "bytes" and len(v.args) == 1 and not v.keywords:
+        a = resolve(fi, v.args[0])
+        if isinstance(a, (ast.Tuple, ast.List)) and a.elts and all(isinstance(const_value(e), int) and not isinstance(const_value(e), bool)
+                                                                     and 0 <= const_value(e) < 256 for e in a.elts):
+            return [ast.copy_location(ast.Constant(value=bytes(const_value(e) for e in a.elts)), v)]      # bytes([0]) == b"\x00"
+        n_ = const_value(a)
+        if isinstance(n_, int) and not isinstance(n_, bool) and 0 < n_ <= 64:
+            return [ast.copy_location(ast.Constant(value=bytes(n_)), v)]                                   # bytes(1) == b"\x00"
     return [v]
 
 
@@ -1229,8 +1946,165 @@ def packer_classes(ctx: Ctx):
     return [c for c in base.all_subclasses()]
 
 
+def _is_wire_read(x: ast.AST, data: str) -> bool:
+    """x reads integers out of the buffer `data`: unpack_from / iter_unpack in any spelling (module function, method of a
+    precompiled Struct), struct.unpack / int.from_bytes of a piece of it, or one byte taken by index."""
+    if isinstance(x, ast.Call):
+        nm = call_name(x)
+        args = [a.value if isinstance(a, ast.Starred) else a for a in x.args] + [k.value for k in x.keywords]
+        if nm in ("unpack_from", "iter_unpack"):
+            return any(isinstance(strip_cast(a), ast.Name) and strip_cast(a).id == data for a in args)
+        if nm == "from_bytes" or (nm == "unpack" and (chain(x.func) in ("unpack", "struct.unpack") or len(x.args) == 1)):
+            return any(isinstance(strip_cast(a), ast.Subscript) and isinstance(strip_cast(strip_cast(a).value), ast.Name)
+                       and strip_cast(strip_cast(a).value).id == data for a in args)
+        return False
+    return isinstance(x, ast.Subscript) and not isinstance(x.slice, ast.Slice) and isinstance(x.ctx, ast.Load) \
+        and isinstance(x.value, ast.Name) and x.value.id == data and not (isinstance(strip_cast(x.slice), ast.Call) and chain(strip_cast(x.slice).func) == "slice")
+
+
+def _buffer_params(t: FuncInfo, call: ast.Call, data: str) -> list[str]:
+    """parameters of t that receive the caller's buffer `data` at `call` and are never rebound in t"""
+    m = _bind_args(t, call)
+    if m is None:
+        return []
+    return [p_ for p_, a in m.items() if isinstance(strip_cast(a), ast.Name) and strip_cast(a).id == data and not local_defs(t, p_)]
+
+
+def _call_reads_wire(repo, fi: FuncInfo, call: ast.Call, data: str, depth: int = 0) -> bool:
+    """`call` hands the buffer to a function of the library that reads integers out of it (directly or one level further down)"""
+    if depth > 2 or call_name(call) in ("unpack", "unpack_from", "len", "unpack_serializable", "unpack_serializable_list"):
+        return False
+    if not any(isinstance(strip_cast(a), ast.Name) and strip_cast(a).id == data for a in [*call.args, *[k.value for k in call.keywords]]):
+        return False
+    for t in repo.resolve_call(fi, call):
+        if _is_abstract(t):
+            continue
+        for p_ in _buffer_params(t, call, data):
+            for x in walk_no_nested(t.node):
+                if _is_wire_read(x, p_) or (isinstance(x, ast.Call) and _call_reads_wire(repo, t, x, p_, depth + 1)):
+                    return True
+    return False
+
+
+def _wire_locals(repo, fi: FuncInfo, data: str, keep: tuple[str, ...] = ()) -> set[str]:
+    """locals of fi whose value depends on integers read from the buffer (transitively through assignments)"""
+    wire: set[str] = set()
+    changed = True
+    while changed:
+        changed = False
+        for st in walk_no_nested(fi.node):
+            if isinstance(st, ast.Assign):
+                src, tgts = st.value, st.targets
+            elif isinstance(st, (ast.AnnAssign, ast.AugAssign)) and st.value is not None:
+                src, tgts = st.value, [st.target]
+            elif isinstance(st, ast.NamedExpr):
+                src, tgts = st.value, [st.target]
+            else:
+                continue
+            derived = any(_is_wire_read(x, data) or (isinstance(x, ast.Call) and _call_reads_wire(repo, fi, x, data)) for x in ast.walk(src)) \
+                or (names_in(src) & wire)
+            if derived:
+                for t in tgts:
+                    for nm in names_in(t):
+                        if nm not in wire and nm not in keep:
+                            wire.add(nm)
+                            changed = True
+    return wire
+
+
+def _record_shape(repo, fi: FuncInfo, e: ast.AST, depth: int = 0):
+    """attributes (None for positional-only parts) of the small result object e evaluates to on every path: a list, () for "a
+    plain value", None when e may be different things."""
+    e = strip_cast(e)
+    if depth > 4:
+        return None
+    rec = _record_of(repo, fi.module, e)
+    if rec is not None:
+        return [a for a, _ in rec[0]]
+    if isinstance(e, ast.Name) and not is_param(fi, e.id):
+        shapes = [_record_shape(repo, fi, v, depth + 1) if (v is not None and idx is None) else None for _, v, idx in local_defs(fi, e.id)]
+        if shapes and all(sh is not None and sh == shapes[0] for sh in shapes):
+            return shapes[0]
+        return None
+    if isinstance(e, ast.Call):
+        ts = [t for t in repo.resolve_call(fi, e) if not _is_abstract(t)]
+        if len(ts) == 1 and not ts[0].is_async and ts[0].name != "__init__":
+            rets = [r for r in walk_no_nested(ts[0].node) if isinstance(r, ast.Return)]
+            shapes = [_record_shape(repo, ts[0], r.value, depth + 1) if r.value is not None else None for r in rets]
+            if shapes and all(sh is not None and sh == shapes[0] for sh in shapes):
+                return shapes[0]
+        return None
+    if isinstance(e, (ast.BinOp, ast.Name, ast.Attribute, ast.Subscript, ast.Constant)):
+        return ()
+    return None
+
+
+def _slice_bounds(repo, fi: FuncInfo, x: ast.Subscript):
+    """(lower | None, upper | None) of a subscript that takes a contiguous piece: `b[lo:up]`, `b[slice(lo, up)]`, `b[slice(*span)]`,
+    `b[piece]` with `piece = slice(...)`; None when x is not such a subscript (or has a step)."""
+    sl = x.slice
+    if isinstance(sl, ast.Slice):
+        return (sl.lower, sl.upper) if sl.step is None else None
+    c = resolve(fi, sl)
+    if not (isinstance(c, ast.Call) and chain(c.func) == "slice" and not c.keywords):
+        return None
+    none = lambda a: isinstance(a, ast.Constant) and a.value is None   # noqa: E731
+    if len(c.args) == 1 and isinstance(c.args[0], ast.Starred):
+        span = strip_cast(c.args[0].value)
+        shape = _record_shape(repo, fi, span)
+        if not shape or len(shape) > 2:
+            return None
+        if isinstance(span, ast.Name):
+            parts = [ast.Subscript(value=ast.Name(id=span.id, ctx=ast.Load()), slice=ast.Constant(value=i), ctx=ast.Load()) for i in range(len(shape))]
+        else:
+            rec = _record_of(repo, fi.module, span)
+            if rec is None:
+                return None
+            parts = [v for _, v in rec[0]]
+        for n_ in parts:
+            ast.copy_location(n_, x) if not hasattr(n_, "lineno") else None
+            ast.fix_missing_locations(n_)
+    elif any(isinstance(a, ast.Starred) for a in c.args) or not 1 <= len(c.args) <= 3:
+        return None
+    else:
+        parts = list(c.args)
+        if len(parts) == 3:
+            if not none(parts[2]):
+                return None
+            parts = parts[:2]
+    lo, up = (None, parts[0]) if len(parts) == 1 else (parts[0], parts[1])
+    return (None if lo is None or none(lo) else lo), (None if none(up) else up)
+
+
+def _buffer_names(fi: FuncInfo, data: str) -> set[str]:
+    """the buffer and its read-only views: `view = memoryview(data)` has the same length and the same bytes"""
+    out = {data}
+    for n in walk_no_nested(fi.node):
+        if isinstance(n, ast.Assign) and len(n.targets) == 1 and isinstance(n.targets[0], ast.Name):
+            v = strip_cast(n.value)
+            if isinstance(v, ast.Call) and chain(v.func) in ("memoryview", "bytes", "bytearray") and len(v.args) == 1 and not v.keywords \
+                    and isinstance(v.args[0], ast.Name) and v.args[0].id == data and single_def(fi, n.targets[0].id) is not None \
+                    and not local_defs(fi, data):
+                out.add(n.targets[0].id)
+    return out
+
+
+def _wire_slices(repo, fi: FuncInfo, data: str, wire: set[str]):
+    """(subscript, upper bound expr) for every piece taken out of the buffer whose end depends on a wire value"""
+    bufs = _buffer_names(fi, data)
+    for x in walk_no_nested(fi.node):
+        if isinstance(x, ast.Subscript) and isinstance(x.ctx, ast.Load) and isinstance(x.value, ast.Name) and x.value.id in bufs:
+            b = _slice_bounds(repo, fi, x)
+            if b is None or b[1] is None:
+                continue
+            up = b[1]
+            if names_in(up) & wire or any(_is_wire_read(y, data) for y in ast.walk(up)):
+                yield x, up
+
+
 def rule_length_honoured(ctx: Ctx) -> None:
     n = 0
+    repo = ctx.repo
     for c in sorted(packer_classes(ctx), key=lambda c: c.name):
         fi = c.methods.get("unpack")
         if fi is None:
@@ -1240,29 +2114,11 @@ def rule_length_honoured(ctx: Ctx) -> None:
         if len(params) < 3:
             continue
         data = params[1]
-        # wire-derived locals: assigned from unpack_from(...) (transitively through arithmetic)
-        wire: set[str] = set()
-        changed = True
-        while changed:
-            changed = False
-            for st in walk_no_nested(fi.node):
-                if isinstance(st, ast.Assign):
-                    src = st.value
-                    derived = any(isinstance(x, ast.Call) and chain(x.func) in ("unpack_from", "struct.unpack_from")
-                                  for x in ast.walk(src)) or (names_in(src) & wire)
-                    if derived:
-                        for t in st.targets:
-                            for nm in names_in(t):
-                                if nm not in wire and nm != params[2]:
-                                    wire.add(nm)
-                                    changed = True
-        for sl in [x for x in walk_no_nested(fi.node) if isinstance(x, ast.Subscript) and isinstance(x.slice, ast.Slice)
-                   and isinstance(x.value, ast.Name) and x.value.id == data and x.slice.upper is not None]:
-            up = sl.slice.upper
-            if not (names_in(up) & wire):
-                continue
+        # wire-derived locals: assigned from a read of the buffer (transitively through arithmetic and small result objects)
+        wire = _wire_locals(repo, fi, data, keep=(params[2],))
+        for sl, up in _wire_slices(repo, fi, data, wire):
             n += 1
-            ok, how = _length_checked(ctx, fi, cfg, sl, data, wire)
+            ok, how = _length_checked(ctx, fi, cfg, sl, data, wire, upper=up)
             ctx.check(ok, "length-honoured", fi, sl,
                       f"{c.name}.unpack: wire length in `{norm(sl)}` is checked against the buffer ({how})",
                       f"{c.name}.unpack slices `{norm(sl)}` with a wire-supplied length that is never compared with "
@@ -1271,7 +2127,12 @@ def rule_length_honoured(ctx: Ctx) -> None:
         # instance when the slice end, written in the caller's terms, depends on a wire value; it is honoured when the helper
         # itself bounds it on every path to the slice, or the caller did before the call.
         for call in calls(fi):
-            if call_name(call) in ("unpack", "unpack_from", "len", "unpack_serializable", "unpack_serializable_list") \
+            # (`super().unpack(data, ..)` / `Base.unpack(self, data, ..)` is such a helper: the inherited decoding is part of this one;
+            # `self.packer.unpack(..)` is another packer, judged as its own class)
+            inherited = call_name(call) == "unpack" and isinstance(call.func, ast.Attribute) and (
+                (isinstance(call.func.value, ast.Call) and chain(call.func.value.func) == "super")
+                or (ctx.repo.resolve_class_expr(fi.module, call.func.value) is not None))
+            if (call_name(call) in ("unpack", "unpack_from", "len", "unpack_serializable", "unpack_serializable_list") and not inherited) \
                     or not any(isinstance(a, ast.Name) and a.id == data for a in [*call.args, *[k.value for k in call.keywords]]):
                 continue
             targets = [t for t in ctx.repo.resolve_call(fi, call) if not _is_abstract(t)]
@@ -1279,29 +2140,198 @@ def rule_length_honoured(ctx: Ctx) -> None:
                 m = _bind_args(t, call)
                 if m is None:
                     continue
-                bufs = [p_ for p_, a in m.items() if isinstance(a, ast.Name) and a.id == data and not local_defs(t, p_)]
-                for sl in [x for x in walk_no_nested(t.node) if isinstance(x, ast.Subscript) and isinstance(x.slice, ast.Slice)
-                           and isinstance(x.value, ast.Name) and x.value.id in bufs and x.slice.upper is not None]:
-                    up = _translate_expr(t, sl.slice.upper, m)
-                    t_wire = any(isinstance(x, ast.Call) and chain(x.func) in ("unpack_from", "struct.unpack_from")
-                                 for nm in names_in(sl.slice.upper) for _, v, _ in local_defs(t, nm) if v is not None for x in ast.walk(v))
-                    if not t_wire and (up is None or not (names_in(up) & wire)):
-                        continue
-                    n += 1
-                    ok = _end_bounded_on_every_path(ctx, t, ctx.cfg(t), sl, sl.value.id, pm_cls=c, symbolic_params=True)
-                    how = f"inside {t.qualname}"
-                    if not ok and up is not None and len(targets) == 1:
-                        ok = _end_bounded_on_every_path(ctx, fi, cfg, call, data, upper=up)
-                        how = f"before the call of {t.qualname}"
-                    ctx.check(ok, "length-honoured", fi, call,
-                              f"{c.name}.unpack: wire length in `{norm(sl)}` of {t.qualname} is checked against the buffer ({how})",
-                              f"{c.name}.unpack hands a wire-supplied length to {t.qualname}, which slices `{norm(sl)}` without it ever being "
-                              "compared with the buffer length: a truncated message is silently accepted and the returned offset lies outside the buffer")
+                for buf in _buffer_params(t, call, data):
+                    t_wire_names = _wire_locals(repo, t, buf)
+                    for x in walk_no_nested(t.node):
+                        if not (isinstance(x, ast.Subscript) and isinstance(x.ctx, ast.Load) and isinstance(x.value, ast.Name) and x.value.id == buf):
+                            continue
+                        b = _slice_bounds(repo, t, x)
+                        if b is None or b[1] is None:
+                            continue
+                        sl, upper = x, b[1]
+                        up = _translate_expr(t, upper, m)
+                        t_wire = bool(names_in(upper) & t_wire_names) or any(_is_wire_read(y, buf) for y in ast.walk(upper))
+                        if not t_wire and (up is None or not (names_in(up) & wire)):
+                            continue
+                        n += 1
+                        ok = _end_bounded_on_every_path(ctx, t, ctx.cfg(t), sl, buf, upper=upper, pm_cls=c, symbolic_params=True)
+                        how = f"inside {t.qualname}"
+                        if not ok and up is not None and len(targets) == 1:
+                            ok = _end_bounded_on_every_path(ctx, fi, cfg, call, data, upper=up)
+                            how = f"before the call of {t.qualname}"
+                        ctx.check(ok, "length-honoured", fi, call,
+                                  f"{c.name}.unpack: wire length in `{norm(sl)}` of {t.qualname} is checked against the buffer ({how})",
+                                  f"{c.name}.unpack hands a wire-supplied length to {t.qualname}, which slices `{norm(sl)}` without it ever being "
+                                  "compared with the buffer length: a truncated message is silently accepted and the returned offset lies outside the buffer")
     ctx.floor("length-honoured", n, 4)
 
 
+def _record_run(base):
+    """
+    The symbolic run `base`, which also knows small result objects: `span = _Span(start, start + n)` (NamedTuple, dataclass,
+    record class, tuple display) binds a record whose parts are evaluated where it is built; `span.end` / `span[1]` /
+    `start, end = span` / `start, end = _Span(..)` read them back.  A record is immutable, so its parts keep the values they had.
+    """
+    from .c02_packers import Unknown
+
+    class RecordRun(base):
+        def __init__(self, *a, **k) -> None:
+            super().__init__(*a, **k)
+            self.records: dict[str, list] = {}
+
+        def _part(self, e: ast.AST):
+            """(found, value) for `rec.attr` / `rec[i]` of a known record local"""
+            if isinstance(e, ast.Attribute) and isinstance(e.value, ast.Name) and e.value.id in self.records:
+                for a, v in self.records[e.value.id]:
+                    if a == e.attr:
+                        return True, v
+                return True, None
+            if isinstance(e, ast.Subscript) and not isinstance(e.slice, ast.Slice) and isinstance(e.value, ast.Name) and e.value.id in self.records:
+                i = const_value(e.slice)
+                parts = self.records[e.value.id]
+                if isinstance(i, int) and not isinstance(i, bool) and -len(parts) <= i < len(parts):
+                    return True, parts[i][1]
+                return True, None
+            return False, None
+
+        def lin(self, e: ast.AST):
+            found, v = self._part(strip_cast(e))
+            if found:
+                if v is not None and v[0] == "lin":
+                    return v[1]
+                raise Unknown(f"part `{norm(e)[:40]}` of a result object")
+            return super().lin(e)
+
+        def value_of(self, x: ast.AST):
+            found, v = self._part(strip_cast(x))
+            return v if found else super().value_of(x)
+
+        def stmt(self, s: ast.AST) -> None:
+            if isinstance(s, (ast.Assign, ast.AnnAssign)) and s.value is not None and (isinstance(s, ast.AnnAssign) or len(s.targets) == 1):
+                tg = s.targets[0] if isinstance(s, ast.Assign) else s.target
+                core = strip_cast(s.value)
+                names = [e.id for e in tg.elts if isinstance(e, ast.Name)] if isinstance(tg, (ast.Tuple, ast.List)) else None
+                unpacking = names is not None and len(names) == len(tg.elts)
+                vals = None
+                if isinstance(core, ast.Name) and core.id in self.records:
+                    vals = list(self.records[core.id])
+                elif isinstance(core, ast.Call) or (isinstance(core, (ast.Tuple, ast.List)) and isinstance(tg, ast.Name)):
+                    rec = _record_of(self.pm.ctx.repo, self.fi.module, core)
+                    if rec is not None:
+                        self.scan_reads(s.value)
+                        vals = [(a, self.value_of(v)) for a, v in rec[0]]
+                if vals is not None:
+                    if unpacking and len(names) == len(vals):
+                        for nm, (_, v) in zip(names, vals):
+                            self.records.pop(nm, None)
+                            self.assign(nm, v)
+                        return
+                    if isinstance(tg, ast.Name):
+                        self.assign(tg.id, None)
+                        self.records[tg.id] = vals
+                        return
+            for x in (walk_no_nested(s) if isinstance(s, ast.stmt) else ast.walk(s)):
+                if isinstance(x, ast.Name) and isinstance(x.ctx, ast.Store):
+                    self.records.pop(x.id, None)
+            super().stmt(s)
+    return RecordRun
+
+
+def _returned_parts(ctx: Ctx, fi: FuncInfo, call: ast.Call, data: str, pm_cls, depth: int = 0):
+    """
+    What a helper that received the buffer hands back: (shape, [(attribute | None, proved)]) per part of its result object (one
+    entry and shape () for a plain value), where `proved` says that at EVERY return of the helper the part is bounded by the
+    length of the buffer (decided inside the helper, its other parameters being unknown integers).  None: not such a helper.
+    """
+    repo = ctx.repo
+    if depth > 1 or call_name(call) in ("unpack", "unpack_from", "len"):
+        return None
+    ts = [t for t in repo.resolve_call(fi, call) if not _is_abstract(t)]
+    if len(ts) != 1 or ts[0].is_async or ts[0].name == "__init__" or ts[0].node is fi.node \
+            or any(isinstance(n, (ast.Yield, ast.YieldFrom)) for n in walk_no_nested(ts[0].node)):
+        return None
+    t = ts[0]
+    bufs = _buffer_params(t, call, data)
+    if len(bufs) != 1:
+        return None
+    memo = ctx.__dict__.setdefault("_c03_returned_parts", {})
+    key = (t, bufs[0], pm_cls)
+    if key in memo:
+        return memo[key]
+    memo[key] = None
+    tcfg = ctx.cfg(t)
+    live = tcfg.reach()
+    if any(u in live and not (u.kind == "stmt" and isinstance(u.ast, ast.Return)) for u, _ in tcfg.exit.pred):
+        return None                                  # may fall off the end: the result can be None
+    rets = [r for r in walk_no_nested(t.node) if isinstance(r, ast.Return) and any(n in live for n in tcfg.nodes_for(r))]
+    if not rets or any(r.value is None for r in rets):
+        return None
+    shapes = [_record_shape(repo, t, r.value) for r in rets]
+    if any(sh is None or sh != shapes[0] for sh in shapes):
+        return None
+    shape = shapes[0]
+    out = []
+    for j, attr in enumerate(shape if shape else [None]):
+        proved = True
+        for r in rets:
+            v = strip_cast(r.value)
+            if shape:
+                rec = _record_of(repo, t.module, v)
+                if rec is not None:
+                    part = rec[0][j][1]
+                elif isinstance(v, ast.Name):
+                    part = ast.fix_missing_locations(ast.copy_location(
+                        ast.Subscript(value=ast.Name(id=v.id, ctx=ast.Load()), slice=ast.Constant(value=j), ctx=ast.Load()), v))
+                else:
+                    proved = False
+                    break
+            else:
+                part = v
+            if not _end_bounded_on_every_path(ctx, t, tcfg, r, bufs[0], upper=part, pm_cls=pm_cls, symbolic_params=True, _depth=depth + 1):
+                proved = False
+                break
+        out.append((attr, proved))
+    memo[key] = (list(shape), out)
+    return memo[key]
+
+
+def _bind_returned(ctx: Ctx, run, fi: FuncInfo, st: ast.AST, data: str, pm_cls, bounds: list, length, depth: int) -> None:
+    """`x = helper(.., data, ..)` completed on this path: bind x (or the unpacked targets) to fresh integers and record
+    `part <= len(data)` for the parts the helper proved."""
+    from .c02_packers import Lin
+    if not isinstance(st, (ast.Assign, ast.AnnAssign)) or st.value is None or (isinstance(st, ast.Assign) and len(st.targets) != 1):
+        return
+    call = strip_cast(st.value)
+    if not isinstance(call, ast.Call) or not any(isinstance(strip_cast(a), ast.Name) and strip_cast(a).id == data
+                                                 for a in [*call.args, *[k.value for k in call.keywords]]):
+        return
+    if _record_of(ctx.repo, fi.module, call) is not None:
+        return
+    got = _returned_parts(ctx, fi, call, data, pm_cls, depth)
+    if got is None:
+        return
+    shape, parts = got
+    tg = st.targets[0] if isinstance(st, ast.Assign) else st.target
+    cnt = ctx.__dict__["_c03_ret_counter"] = ctx.__dict__.get("_c03_ret_counter", 0) + 1
+    syms = [Lin.sym(f"w:ret{cnt}.{j}") for j in range(len(parts))]
+    for sym, (_, proved) in zip(syms, parts):
+        if proved:
+            bounds.append((length - sym, 0))
+    if isinstance(tg, ast.Name):
+        run.assign(tg.id, None)
+        run.records.pop(tg.id, None)
+        if shape:
+            run.records[tg.id] = [(a, ("lin", sym)) for sym, (a, _) in zip(syms, parts)]
+        else:
+            run.assign(tg.id, ("lin", syms[0]))
+    elif isinstance(tg, (ast.Tuple, ast.List)) and shape and len(tg.elts) == len(shape) and all(isinstance(e, ast.Name) for e in tg.elts):
+        for e, sym in zip(tg.elts, syms):
+            run.records.pop(e.id, None)
+            run.assign(e.id, ("lin", sym))
+
+
 def _end_bounded_on_every_path(ctx: Ctx, fi: FuncInfo, cfg, sl: ast.AST, data: str, *, upper: ast.AST | None = None,
-                               pm_cls=None, symbolic_params: bool = False) -> bool:
+                               pm_cls=None, symbolic_params: bool = False, _depth: int = 0) -> bool:
     """
     Idiom 1, decided on the CFG: on every path from the entry to the slice, some branch condition taken on the way
     implies  len(data) >= END  where END is exactly the slice's upper bound.  Both are compared as integer linear forms
@@ -1315,6 +2345,7 @@ def _end_bounded_on_every_path(ctx: Ctx, fi: FuncInfo, cfg, sl: ast.AST, data: s
     if not site:
         return False
     upper = sl.slice.upper if upper is None else upper
+    pm_cls = pm_cls if pm_cls is not None else fi.cls
 
     class HelperRun(UnpackRun):
         """the same symbolic run for a helper that received the buffer: every other parameter is an unknown integer"""
@@ -1331,7 +2362,7 @@ def _end_bounded_on_every_path(ctx: Ctx, fi: FuncInfo, cfg, sl: ast.AST, data: s
             self.fi = fi_
             self.data, self.off = data, None
             self.env = {p_: Lin.sym(f"w:{p_}") for p_ in ps if p_ not in (data, "self", "cls")}
-    make_run = HelperRun if symbolic_params else UnpackRun
+    make_run = _record_run(HelperRun if symbolic_params else UnpackRun)
     length = Lin.sym("len(data)")
     n_paths = 0
     seen_prefix = set()
@@ -1416,6 +2447,9 @@ def _end_bounded_on_every_path(ctx: Ctx, fi: FuncInfo, cfg, sl: ast.AST, data: s
                         if any(isinstance(a, ast.Name) and a.id == data for a in [*c.args, *[k.value for k in c.keywords]]) \
                                 and call_name(c) not in ("unpack", "unpack_from", "len"):
                             add_bounds(run, dec.exit_facts(fi, c), bounds)
+                    # ... and what it hands back: `span = _locate(data, offset)` whose parts the helper itself proved to lie
+                    # inside the buffer at every return
+                    _bind_returned(ctx, run, fi, node.ast, data, pm_cls, bounds, length, _depth)
             elif node.kind == "cond" and lab in (True, False):
                 f = fact_of(node.ast, lab)
                 # the branch fact itself, and what it implies when it tests a decision (a local / a helper's verdict)
@@ -1435,10 +2469,11 @@ def _end_bounded_on_every_path(ctx: Ctx, fi: FuncInfo, cfg, sl: ast.AST, data: s
     return n_paths > 0
 
 
-def _length_checked(ctx: Ctx, fi: FuncInfo, cfg, sl: ast.Subscript, data: str, wire: set[str]):
+def _length_checked(ctx: Ctx, fi: FuncInfo, cfg, sl: ast.Subscript, data: str, wire: set[str], upper: ast.AST | None = None):
     st = enclosing_stmt(sl)
+    upper = sl.slice.upper if upper is None else upper
     # idiom 1: every path to the slice passes a comparison that implies END <= len(data)
-    if _end_bounded_on_every_path(ctx, fi, cfg, sl, data):
+    if _end_bounded_on_every_path(ctx, fi, cfg, sl, data, upper=upper):
         return True, "dominating comparison of the slice end with len(data)"
     # idiom 2: the slice result's length is compared with the wire length afterwards and a mismatch raises
     tgt = None
@@ -1460,8 +2495,9 @@ def _length_checked(ctx: Ctx, fi: FuncInfo, cfg, sl: ast.Subscript, data: str, w
                                 return True, "result length compared with the wire length, mismatch raises"
     # idiom 3: a later fixed-format unpack_from at exactly the slice's end must succeed on every normal path
     for c in calls(fi, ["unpack_from", "struct.unpack_from"]):
-        off = arg(c, 2, "offset")
-        if off is not None and same_resolved(fi, off, sl.slice.upper) and chain(arg(c, 1)) == data:
+        method = chain(c.func) not in ("unpack_from", "struct.unpack_from")       # PRECOMPILED.unpack_from(buffer, offset)
+        off = arg(c, 1 if method else 2, "offset")
+        if off is not None and same_resolved(fi, off, upper) and chain(arg(c, 0 if method else 1, "buffer")) == data:
             cn = cfg.nodes_for(c)
             sn = cfg.nodes_for(sl)
             if cn and sn and all(cfg.always_followed_by(s, cn) or s in cn for s in sn):
@@ -1740,8 +2776,12 @@ def _self_call_region(repo, root: FuncInfo, stop: set[str]):
                 ts = repo.resolve_call(g, c)
             else:
                 ts = [t for t in _callable_targets(repo, g, c) if t.name not in stop and t.name != root.name]
+                if not ts and isinstance(f, ast.Name) and not local_defs(g, f.id) and not is_param(g, f.id):
+                    # a plain function of root's own module the work was handed to (`_run(self, handler, ...)`)
+                    ts = [t for t in repo.resolve_call(g, c) if t.cls is None and t.module is root.module and t.name not in stop
+                          and parent(t.node) is t.module.tree]
             for t in ts:
-                if t.cls is None or id(t.cls) not in mro or t is root:
+                if t is root or (t.cls is None and t.module is not root.module) or (t.cls is not None and id(t.cls) not in mro):
                     continue
                 sites.setdefault(t, []).append((g, c))
                 if t not in region and len(region) < 8:
@@ -2037,7 +3077,168 @@ def rule_listener_lists(ctx: Ctx) -> None:
     ctx.instance("handler-contained", ep.where, f"{n} in-place removals from listener lists (delivery iterates a copy: {copies})", nontrivial=False)
 
 
+_FAMILY_ARITY = {"AF_INET": 2, "AF_INET6": 4}
+
+
+def _source_repo(ctx: Ctx):
+    """
+    The library as it is written, without the load-time normalisation.  The normaliser inlines a NEW method at the
+    `self.<method>(...)` calls of its own class even when a subclass overrides that method (a template-method hook), which
+    shows every subclass the base class's body; a rule that decides per concrete class what a hook does must look at the source.
+    """
+    import os
+    r = ctx.__dict__.get("_c03_source_repo")
+    if r is None:
+        from ..model import Repo
+        old = os.environ.get("SA_NO_NAME_RECOVERY")
+        os.environ["SA_NO_NAME_RECOVERY"] = "1"
+        try:
+            r = Repo(ctx.repo.root, overrides=ctx.repo.overrides, extra_dirs=ctx.repo.extra_dirs)
+        finally:
+            if old is None:
+                del os.environ["SA_NO_NAME_RECOVERY"]
+            else:
+                os.environ["SA_NO_NAME_RECOVERY"] = old
+        ctx.__dict__["_c03_source_repo"] = r
+    return r
+
+
+def rule_address_arity(ctx: Ctx) -> None:
+    """
+    The socket address the transport hands to datagram_received has as many elements as its address family says: (host, port)
+    for AF_INET, (host, port, flowinfo, scope_id) for AF_INET6.  Spreading it (`Address(*addr)`) into a record of fixed
+    arity, or unpacking it into a fixed number of names, raises TypeError / ValueError inside the protocol callback when the
+    counts differ - for every datagram, before any listener is notified.  Judged once per concrete endpoint class: the
+    family is that class's SOCKET_FAMILY, `self.<hook>(...)` and `self.<CLASS_ATTRIBUTE>` are resolved on that class, so a
+    shared datagram_received with per-class hooks / class attributes is followed to what each class really executes.
+    """
+    repo = _source_repo(ctx)
+    ep = repo.cls("Endpoint", "ipv8/messaging/interfaces/endpoint.py")
+    n = 0
+    for c in sorted(ep.all_subclasses(), key=lambda k: (k.module.relpath, k.name)):
+        fam = c.lookup_attr("SOCKET_FAMILY")
+        arity = _FAMILY_ARITY.get((chain(fam) or "").split(".")[-1]) if fam is not None else None
+        f = c.lookup("datagram_received")
+        if arity is None or f is None or len(f.params()) < 3:
+            continue
+        seen: set = set()
+
+        def class_of(g: FuncInfo, e: ast.AST):
+            """the class a callee expression denotes for THIS endpoint class"""
+            e = strip_cast(e)
+            if isinstance(e, ast.Attribute) and isinstance(e.value, ast.Name) and e.value.id in ("self", "cls"):
+                a = c.lookup_attr(e.attr)
+                if a is None:
+                    return None
+                owner = next(k for k in c.mro() if e.attr in k.attrs)
+                return repo.resolve_class_expr(owner.module, a)
+            if isinstance(e, ast.Name) and not is_param(g, e.id) and local_defs(g, e.id):
+                d = single_def(g, e.id)
+                return class_of(g, d[0]) if d is not None and d[1] is None else None
+            return repo.resolve_class_expr(g.module, e)
+
+        def length_of(g: FuncInfo, e: ast.AST, lens: dict, depth: int = 0):
+            """number of elements of e when e is the socket address (or a constant slice / copy / alias of it); None: unknown"""
+            e = strip_cast(e)
+            if depth > 4:
+                return None
+            if isinstance(e, ast.Name):
+                if e.id in lens and not local_defs(g, e.id):
+                    return lens[e.id]
+                if not is_param(g, e.id):
+                    d = single_def(g, e.id)
+                    if d is not None and d[1] is None:
+                        return length_of(g, d[0], lens, depth + 1)
+                return None
+            if isinstance(e, ast.Call) and chain(e.func) in ("tuple", "list") and len(e.args) == 1 and not e.keywords:
+                return length_of(g, e.args[0], lens, depth + 1)
+            if isinstance(e, ast.Subscript) and isinstance(e.slice, ast.Slice):
+                base = length_of(g, e.value, lens, depth + 1)
+                if base is None:
+                    return None
+                parts = []
+                for b in (e.slice.lower, e.slice.upper, e.slice.step):
+                    v = None if b is None else repo.resolve_const(g.module, b, c if g.cls is not None else None)   # self.X: of THIS class
+                    if b is not None and (not isinstance(v, int) or isinstance(v, bool)):
+                        return None
+                    parts.append(v)
+                return len(range(base)[slice(*parts)])
+            return None
+
+        def visit(g: FuncInfo, lens: dict, via: str, depth: int) -> None:
+            nonlocal n
+            key = (g, tuple(sorted(lens.items())))
+            if key in seen or depth > 3:
+                return
+            seen.add(key)
+            for call in calls(g):
+                stars = [a for a in call.args if isinstance(a, ast.Starred)]
+                made = isinstance(call.func, ast.Attribute) and call.func.attr == "_make" and len(call.args) == 1 and not stars
+                if (len(stars) == 1 or made) and not call.keywords:
+                    got = length_of(g, call.args[0] if made else stars[0].value, lens)
+                    k = class_of(g, call.func.value if made else call.func) if got is not None else None
+                    fields = _record_class(k) if k is not None else None
+                    if fields is not None and made:
+                        fields = [(p_, a_, None) for p_, a_, _ in fields]        # _make takes exactly one element per field
+                    if fields is not None:
+                        total = got if made else got + len(call.args) - 1
+                        need_min = sum(1 for _, _, d in fields if d is None)
+                        ok = need_min <= total <= len(fields) or protected(call, g) or _handled(call, g, ("TypeError",))
+                        n += 1
+                        ctx.check(ok, "address-arity", g, call,
+                                  f"{c.name}: `{norm(call)[:60]}` spreads {got} address element(s) into the {len(fields)} field(s) of {k.name} (reached via {via})",
+                                  f"{c.name} receives on an {(chain(fam) or '').split('.')[-1]} socket, whose source addresses have {arity} elements; "
+                                  f"`{norm(call)[:60]}` in {g.qualname} (run for {c.name} via {via}) spreads {got} of them into {k.name}, which takes "
+                                  f"{need_min if need_min == len(fields) else f'{need_min}..{len(fields)}'}: TypeError is raised inside the protocol "
+                                  "callback for every datagram, it reaches the transport and no listener gets the datagram")
+                # the address handed on: a hook of this very class, or a plain function
+                f_ = call.func
+                ts: list[FuncInfo] = []
+                if isinstance(f_, ast.Attribute) and isinstance(f_.value, ast.Name) and f_.value.id in ("self", "cls"):
+                    m = c.lookup(f_.attr)
+                    ts = [m] if m is not None else []
+                elif isinstance(f_, ast.Name):
+                    ts = [t for t in repo.resolve_call(g, call) if t.cls is None]
+                for t in ts:
+                    if t is None or _is_abstract(t) or t.is_async:
+                        continue
+                    m = _bind_args(t, call)
+                    if m is None and isinstance(f_, ast.Attribute) and "staticmethod" in t.decorator_names():
+                        # a static hook called through self: no receiver parameter
+                        ps = t.params()
+                        m = dict(zip(ps, call.args)) if len(call.args) <= len(ps) and not call.keywords \
+                            and not any(isinstance(a, ast.Starred) for a in call.args) else None
+                    if m is None:
+                        continue
+                    sub = {}
+                    for p_, a in m.items():
+                        ln = length_of(g, a, lens) if isinstance(a, ast.AST) and any(a is x for x in ast.walk(call)) else None
+                        if ln is not None:
+                            sub[p_] = ln
+                    if sub:
+                        visit(t, sub, f"{via} -> {t.qualname}", depth + 1)
+            for st in walk_no_nested(g.node):
+                if isinstance(st, ast.Assign) and len(st.targets) == 1 and isinstance(st.targets[0], (ast.Tuple, ast.List)):
+                    got = length_of(g, st.value, lens)
+                    if got is None:
+                        continue
+                    elts = st.targets[0].elts
+                    starred = sum(1 for e in elts if isinstance(e, ast.Starred))
+                    ok = (got == len(elts)) if not starred else (got >= len(elts) - 1)
+                    ok = ok or protected(st, g) or _handled(st, g, ("ValueError",))
+                    n += 1
+                    ctx.check(ok, "address-arity", g, st,
+                              f"{c.name}: `{norm(st)[:60]}` unpacks {got} address element(s) (reached via {via})",
+                              f"{c.name} receives on an {(chain(fam) or '').split('.')[-1]} socket, whose source addresses have {arity} elements; "
+                              f"`{norm(st)[:60]}` in {g.qualname} (run for {c.name} via {via}) unpacks {got} of them into {len(elts)} names: ValueError is "
+                              "raised inside the protocol callback for every datagram, it reaches the transport and no listener gets the datagram")
+
+        visit(f, {f.params()[2]: arity}, f"{c.name}.datagram_received" if f.cls is c else f"{f.qualname} inherited by {c.name}", 0)
+    ctx.instance("address-arity", ep.where, f"{n} spreadings / unpackings of a transport-supplied socket address examined", nontrivial=False)
+
+
 def run(ctx: Ctx) -> None:
+    rule_address_arity(ctx)
     rule_listener_lists(ctx)
     rule_bounds(ctx)
     rule_dispatch(ctx)
@@ -2047,6 +3248,7 @@ def run(ctx: Ctx) -> None:
     ctx.assume("exceptions raised inside handler bodies are contained by the try/except in on_packet (checked) - handler bodies themselves are not analysed")
     ctx.assume("dict subscripts (routing tables) are outside the bounds rule: KeyError from inter-procedural table invariants is not decided")
     ctx.assume("struct / slicing semantics of CPython (slices never raise)")
+    ctx.assume("asyncio hands datagram_received the socket's own address tuple: (host, port) for AF_INET, (host, port, flowinfo, scope_id) for AF_INET6")
 
 
 _CR = "ipv8/messaging/anonymization/crypto.py"
@@ -2121,6 +3323,26 @@ WITNESSES = [
     {"name": "snapshot handler reads unbound address", "file": "ipv8/peerdiscovery/network.py", "rule": "snapshot-never-raises",
      "old": "                    if offset <= previous_offset:\n                        # We got stuck, or even went back in time.\n                        logger.exception(\"Snapshot loading got stuck! Aborting snapshot load.\")\n                        break\n",
      "new": "                    if offset < previous_offset:\n                        logger.exception(\"Snapshot loading got stuck! Aborting snapshot load.\")\n                        break\n"},
+]
+
+_UDP = "ipv8/messaging/interfaces/udp/endpoint.py"
+WITNESSES += [
+    {"name": "round 3: IPv6 endpoint spreads the 4-element socket address into the 2-field address", "file": _UDP, "rule": "address-arity",
+     "old": "            self.notify_listeners((UDPv6Address(*addr[:2]), datagram))", "new": "            self.notify_listeners((UDPv6Address(*addr), datagram))"},
+    {"name": "round 3: shared datagram_received builds the address from a class attribute and spreads the raw socket address", "rule": "address-arity",
+     "file": _UDP,
+     "edits": [{"file": _UDP, "old": "    SOCKET_FAMILY = socket.AF_INET\n", "new": "    SOCKET_FAMILY = socket.AF_INET\n    ADDRESS_CLASS = UDPv4Address\n"},
+               {"file": _UDP, "old": "            self.notify_listeners((UDPv4Address(*addr), datagram))", "new": "            self.notify_listeners((self.ADDRESS_CLASS(*addr), datagram))"},
+               {"file": _UDP, "old": "    SOCKET_FAMILY = socket.AF_INET6\n", "new": "    SOCKET_FAMILY = socket.AF_INET6\n    ADDRESS_CLASS = UDPv6Address\n"},
+               {"file": _UDP, "old": "        super().__init__(port, ip, [(socket.SOL_SOCKET, socket.SO_RCVBUF, 870400),\n"
+                                     "                                    (socket.IPPROTO_IPV6, socket.IPV6_V6ONLY, 1)])\n\n"
+                                     "    def datagram_received(self, datagram: bytes, addr: Address) -> None:\n"
+                                     "        \"\"\"\n        Process incoming data.\n        \"\"\"\n"
+                                     "        # If the endpoint is still running, accept incoming requests, otherwise drop them\n"
+                                     "        if self._running:\n            self.bytes_down += len(datagram)\n"
+                                     "            self.notify_listeners((UDPv6Address(*addr[:2]), datagram))\n",
+                "new": "        super().__init__(port, ip, [(socket.SOL_SOCKET, socket.SO_RCVBUF, 870400),\n"
+                       "                                    (socket.IPPROTO_IPV6, socket.IPV6_V6ONLY, 1)])\n"}]},
 ]
 
 # round 2: shapes the generalised rules must still reject (decision helpers, dispatch tables, delegated blocks)
@@ -2504,3 +3726,487 @@ WITNESSES += [{'name': 'round 2: decision helper returns the message id without 
                     '        if iscoroutine(result):\n'
                     '            aw_result = cast("Awaitable", result)\n'
                     '            self.register_anonymous_task("on_packet", ensure_future(aw_result), ignore=(Exception,))\n'}]}]
+
+# round 3: shapes the generalised rules (result objects, enumerations, helpers that hand back a span / a handler, precompiled structs,
+# methods picked by name, per-class hooks) must still reject
+WITNESSES += [{'name': 'round 3: tuple helper not inlinable, no try',
+  'rule': 'handler-contained',
+  'file': 'ipv8/community.py',
+  'edits': [{'file': 'ipv8/community.py',
+             'old': '        if self._prefix != data[:22] or len(data) < 23:\n'
+                    '            return\n'
+                    '        msg_id = data[22]\n'
+                    '        handler = self.decode_map[msg_id]\n'
+                    '        if handler is not None:\n'
+                    '            try:\n'
+                    '                result: Coroutine | None = handler(source_address, data)\n'
+                    '                if iscoroutine(result):\n'
+                    '                    aw_result = cast("Awaitable", result)\n'
+                    '                    self.register_anonymous_task("on_packet", ensure_future(aw_result), ignore=(Exception,))\n'
+                    '            except Exception:\n'
+                    '                self.logger.exception("Exception occurred while handling packet!\\n%s",\n'
+                    '                                      "".join(format_exception(*sys.exc_info())))\n'
+                    '        elif warn_unknown:\n'
+                    '            self.logger.warning("Received unknown message: %d from (%s, %d)", msg_id, *source_address)\n',
+             'new': '        route = self._route(data)\n'
+                    '        if route is None:\n'
+                    '            return\n'
+                    '        msg_id, handler = route\n'
+                    '        if handler is not None:\n'
+                    '            result: Coroutine | None = handler(source_address, data)\n'
+                    '            if iscoroutine(result):\n'
+                    '                aw_result = cast("Awaitable", result)\n'
+                    '                self.register_anonymous_task("on_packet", ensure_future(aw_result), ignore=(Exception,))\n'
+                    '        elif warn_unknown:\n'
+                    '            self.logger.warning("Received unknown message: %d from (%s, %d)", msg_id, *source_address)\n'},
+            {'file': 'ipv8/community.py',
+             'old': '    def walk_to(self, address: Address) -> None:\n',
+             'new': '    def _route(self, data: bytes):\n'
+                    '        for _ in range(1):\n'
+                    '            if len(data) >= 23 and self._prefix == data[:22]:\n'
+                    '                return data[22], self.decode_map[data[22]]\n'
+                    '        return None\n'
+                    '\n'
+                    '    def walk_to(self, address: Address) -> None:\n'}]},
+ {'name': 'round 3: tuple helper not inlinable, no prefix',
+  'rule': 'prefix-before-dispatch',
+  'file': 'ipv8/community.py',
+  'edits': [{'file': 'ipv8/community.py',
+             'old': '        if self._prefix != data[:22] or len(data) < 23:\n'
+                    '            return\n'
+                    '        msg_id = data[22]\n'
+                    '        handler = self.decode_map[msg_id]\n'
+                    '        if handler is not None:\n'
+                    '            try:\n'
+                    '                result: Coroutine | None = handler(source_address, data)\n'
+                    '                if iscoroutine(result):\n'
+                    '                    aw_result = cast("Awaitable", result)\n'
+                    '                    self.register_anonymous_task("on_packet", ensure_future(aw_result), ignore=(Exception,))\n'
+                    '            except Exception:\n'
+                    '                self.logger.exception("Exception occurred while handling packet!\\n%s",\n'
+                    '                                      "".join(format_exception(*sys.exc_info())))\n'
+                    '        elif warn_unknown:\n'
+                    '            self.logger.warning("Received unknown message: %d from (%s, %d)", msg_id, *source_address)\n',
+             'new': '        route = self._route(data)\n'
+                    '        if route is None:\n'
+                    '            return\n'
+                    '        msg_id, handler = route\n'
+                    '        if handler is not None:\n'
+                    '            try:\n'
+                    '                result: Coroutine | None = handler(source_address, data)\n'
+                    '                if iscoroutine(result):\n'
+                    '                    aw_result = cast("Awaitable", result)\n'
+                    '                    self.register_anonymous_task("on_packet", ensure_future(aw_result), ignore=(Exception,))\n'
+                    '            except Exception:\n'
+                    '                self.logger.exception("Exception occurred while handling packet!\\n%s",\n'
+                    '                                      "".join(format_exception(*sys.exc_info())))\n'
+                    '        elif warn_unknown:\n'
+                    '            self.logger.warning("Received unknown message: %d from (%s, %d)", msg_id, *source_address)\n'},
+            {'file': 'ipv8/community.py',
+             'old': '    def walk_to(self, address: Address) -> None:\n',
+             'new': '    def _route(self, data: bytes):\n'
+                    '        for _ in range(1):\n'
+                    '            if len(data) >= 23:\n'
+                    '                return data[22], self.decode_map[data[22]]\n'
+                    '        return None\n'
+                    '\n'
+                    '    def walk_to(self, address: Address) -> None:\n'}]},
+ {'name': 'round 3: partial outside try',
+  'rule': 'handler-contained',
+  'file': 'ipv8/community.py',
+  'edits': [{'file': 'ipv8/community.py',
+             'old': '        if self._prefix != data[:22] or len(data) < 23:\n'
+                    '            return\n'
+                    '        msg_id = data[22]\n'
+                    '        handler = self.decode_map[msg_id]\n'
+                    '        if handler is not None:\n'
+                    '            try:\n'
+                    '                result: Coroutine | None = handler(source_address, data)\n'
+                    '                if iscoroutine(result):\n'
+                    '                    aw_result = cast("Awaitable", result)\n'
+                    '                    self.register_anonymous_task("on_packet", ensure_future(aw_result), ignore=(Exception,))\n'
+                    '            except Exception:\n'
+                    '                self.logger.exception("Exception occurred while handling packet!\\n%s",\n'
+                    '                                      "".join(format_exception(*sys.exc_info())))\n'
+                    '        elif warn_unknown:\n'
+                    '            self.logger.warning("Received unknown message: %d from (%s, %d)", msg_id, *source_address)\n',
+             'new': '        if self._prefix != data[:22] or len(data) < 23:\n'
+                    '            return\n'
+                    '        msg_id = data[22]\n'
+                    '        handler = self.decode_map[msg_id]\n'
+                    '        if handler is not None:\n'
+                    '            bound = partial(handler, source_address)\n'
+                    '            result: Coroutine | None = bound(data)\n'
+                    '            if iscoroutine(result):\n'
+                    '                aw_result = cast("Awaitable", result)\n'
+                    '                self.register_anonymous_task("on_packet", ensure_future(aw_result), ignore=(Exception,))\n'
+                    '        elif warn_unknown:\n'
+                    '            self.logger.warning("Received unknown message: %d from (%s, %d)", msg_id, *source_address)\n'}]},
+ {'name': 'round 3: module-level runner without try',
+  'rule': 'handler-contained',
+  'file': 'ipv8/community.py',
+  'edits': [{'file': 'ipv8/community.py',
+             'old': '        if self._prefix != data[:22] or len(data) < 23:\n'
+                    '            return\n'
+                    '        msg_id = data[22]\n'
+                    '        handler = self.decode_map[msg_id]\n'
+                    '        if handler is not None:\n'
+                    '            try:\n'
+                    '                result: Coroutine | None = handler(source_address, data)\n'
+                    '                if iscoroutine(result):\n'
+                    '                    aw_result = cast("Awaitable", result)\n'
+                    '                    self.register_anonymous_task("on_packet", ensure_future(aw_result), ignore=(Exception,))\n'
+                    '            except Exception:\n'
+                    '                self.logger.exception("Exception occurred while handling packet!\\n%s",\n'
+                    '                                      "".join(format_exception(*sys.exc_info())))\n'
+                    '        elif warn_unknown:\n'
+                    '            self.logger.warning("Received unknown message: %d from (%s, %d)", msg_id, *source_address)\n',
+             'new': '        if self._prefix != data[:22] or len(data) < 23:\n'
+                    '            return\n'
+                    '        msg_id = data[22]\n'
+                    '        handler = self.decode_map[msg_id]\n'
+                    '        if handler is not None:\n'
+                    '            for _ in range(1):\n'
+                    '                _run_it(self, handler, source_address, data)\n'
+                    '        elif warn_unknown:\n'
+                    '            self.logger.warning("Received unknown message: %d from (%s, %d)", msg_id, *source_address)\n'},
+            {'file': 'ipv8/community.py',
+             'old': 'class CommunitySettings(Settings):\n',
+             'new': 'def _run_it(overlay, handler, source_address, data):\n'
+                    '    for _ in range(1):\n'
+                    '        result = handler(source_address, data)\n'
+                    '        if iscoroutine(result):\n'
+                    '            overlay.register_anonymous_task("on_packet", ensure_future(result), ignore=(Exception,))\n'
+                    '            return\n'
+                    '\n'
+                    '\n'
+                    'class CommunitySettings(Settings):\n'}]},
+ {'name': 'round 3: span helper attr bad check',
+  'rule': 'length-honoured',
+  'file': 'ipv8/messaging/serialization.py',
+  'edits': [{'file': 'ipv8/messaging/serialization.py',
+             'old': '        str_length = unpack_from(self.length_format, data, offset)[0] * self.base\n'
+                    '        end = offset + self.length_size + str_length\n'
+                    '        if end > len(data):\n'
+                    '            msg = f"Declared length {str_length} exceeds the {len(data) - offset - self.length_size} bytes left in the buffer"\n'
+                    '            raise PackError(msg)\n'
+                    '        unpack_list.append(data[offset + self.length_size: end])\n'
+                    '        return end\n',
+             'new': '        span = _prefixed_span(self.length_format, self.length_size, self.base, data, offset)\n'
+                    '        unpack_list.append(data[span.start: span.end])\n'
+                    '        return span.end\n'},
+            {'file': 'ipv8/messaging/serialization.py',
+             'old': 'class Packer(typing.Generic[T, A], metaclass=abc.ABCMeta):\n',
+             'new': 'class _Span(typing.NamedTuple):\n'
+                    '    start: int\n'
+                    '    end: int\n'
+                    '\n'
+                    '\n'
+                    'def _prefixed_span(length_format: str, length_size: int, base: int, data: bytes, offset: int) -> _Span:\n'
+                    '    for _ in range(1):\n'
+                    '        start = offset + length_size\n'
+                    '        body_length = unpack_from(length_format, data, offset)[0] * base\n'
+                    '        if start > len(data):\n'
+                    '            raise PackError("too long")\n'
+                    '        return _Span(start, start + body_length)\n'
+                    '    raise PackError("unreachable")\n'
+                    '\n'
+                    '\n'
+                    'class Packer(typing.Generic[T, A], metaclass=abc.ABCMeta):\n'}]},
+ {'name': 'round 3: span helper end+1',
+  'rule': 'length-honoured',
+  'file': 'ipv8/messaging/serialization.py',
+  'edits': [{'file': 'ipv8/messaging/serialization.py',
+             'old': '        str_length = unpack_from(self.length_format, data, offset)[0] * self.base\n'
+                    '        end = offset + self.length_size + str_length\n'
+                    '        if end > len(data):\n'
+                    '            msg = f"Declared length {str_length} exceeds the {len(data) - offset - self.length_size} bytes left in the buffer"\n'
+                    '            raise PackError(msg)\n'
+                    '        unpack_list.append(data[offset + self.length_size: end])\n'
+                    '        return end\n',
+             'new': '        span = _prefixed_span(self.length_format, self.length_size, self.base, data, offset)\n'
+                    '        unpack_list.append(data[span.start: span.end + 1])\n'
+                    '        return span.end + 1\n'},
+            {'file': 'ipv8/messaging/serialization.py',
+             'old': 'class Packer(typing.Generic[T, A], metaclass=abc.ABCMeta):\n',
+             'new': 'class _Span(typing.NamedTuple):\n'
+                    '    start: int\n'
+                    '    end: int\n'
+                    '\n'
+                    '\n'
+                    'def _prefixed_span(length_format: str, length_size: int, base: int, data: bytes, offset: int) -> _Span:\n'
+                    '    for _ in range(1):\n'
+                    '        start = offset + length_size\n'
+                    '        body_length = unpack_from(length_format, data, offset)[0] * base\n'
+                    '        if start + body_length > len(data):\n'
+                    '            raise PackError("too long")\n'
+                    '        return _Span(start, start + body_length)\n'
+                    '    raise PackError("unreachable")\n'
+                    '\n'
+                    '\n'
+                    'class Packer(typing.Generic[T, A], metaclass=abc.ABCMeta):\n'}]},
+ {'name': 'round 3: span helper tuple idx wrong part',
+  'rule': 'length-honoured',
+  'file': 'ipv8/messaging/serialization.py',
+  'edits': [{'file': 'ipv8/messaging/serialization.py',
+             'old': '        str_length = unpack_from(self.length_format, data, offset)[0] * self.base\n'
+                    '        end = offset + self.length_size + str_length\n'
+                    '        if end > len(data):\n'
+                    '            msg = f"Declared length {str_length} exceeds the {len(data) - offset - self.length_size} bytes left in the buffer"\n'
+                    '            raise PackError(msg)\n'
+                    '        unpack_list.append(data[offset + self.length_size: end])\n'
+                    '        return end\n',
+             'new': '        span = _prefixed_span(self.length_format, self.length_size, self.base, data, offset)\n'
+                    '        unpack_list.append(data[span[0]: span[1]])\n'
+                    '        return span[1]\n'},
+            {'file': 'ipv8/messaging/serialization.py',
+             'old': 'class Packer(typing.Generic[T, A], metaclass=abc.ABCMeta):\n',
+             'new': 'class _Span(typing.NamedTuple):\n'
+                    '    start: int\n'
+                    '    end: int\n'
+                    '\n'
+                    '\n'
+                    'def _prefixed_span(length_format: str, length_size: int, base: int, data: bytes, offset: int) -> _Span:\n'
+                    '    for _ in range(1):\n'
+                    '        start = offset + length_size\n'
+                    '        body_length = unpack_from(length_format, data, offset)[0] * base\n'
+                    '        if start + body_length > len(data):\n'
+                    '            raise PackError("too long")\n'
+                    '        return (start + body_length, start + body_length + 4)\n'
+                    '    raise PackError("unreachable")\n'
+                    '\n'
+                    '\n'
+                    'class Packer(typing.Generic[T, A], metaclass=abc.ABCMeta):\n'}]},
+ {'name': 'round 3: span record local checked on wrong field',
+  'rule': 'length-honoured',
+  'file': 'ipv8/messaging/serialization.py',
+  'edits': [{'file': 'ipv8/messaging/serialization.py',
+             'old': '        str_length = unpack_from(self.length_format, data, offset)[0] * self.base\n'
+                    '        end = offset + self.length_size + str_length\n'
+                    '        if end > len(data):\n'
+                    '            msg = f"Declared length {str_length} exceeds the {len(data) - offset - self.length_size} bytes left in the buffer"\n'
+                    '            raise PackError(msg)\n'
+                    '        unpack_list.append(data[offset + self.length_size: end])\n'
+                    '        return end\n',
+             'new': '        str_length = unpack_from(self.length_format, data, offset)[0] * self.base\n'
+                    '        span = _Span(offset + self.length_size, offset + self.length_size + str_length)\n'
+                    '        if span.start > len(data):\n'
+                    '            raise PackError("x")\n'
+                    '        unpack_list.append(data[span.start: span.end])\n'
+                    '        return span.end\n'},
+            {'file': 'ipv8/messaging/serialization.py',
+             'old': 'class Packer(typing.Generic[T, A], metaclass=abc.ABCMeta):\n',
+             'new': 'class _Span(typing.NamedTuple):\n'
+                    '    start: int\n'
+                    '    end: int\n'
+                    '\n'
+                    '\n'
+                    'class Packer(typing.Generic[T, A], metaclass=abc.ABCMeta):\n'}]},
+ {'name': 'round 3: byte length unchecked',
+  'rule': 'length-honoured',
+  'file': 'ipv8/messaging/serialization.py',
+  'edits': [{'file': 'ipv8/messaging/serialization.py',
+             'old': '        str_length = unpack_from(self.length_format, data, offset)[0] * self.base\n'
+                    '        end = offset + self.length_size + str_length\n'
+                    '        if end > len(data):\n'
+                    '            msg = f"Declared length {str_length} exceeds the {len(data) - offset - self.length_size} bytes left in the buffer"\n'
+                    '            raise PackError(msg)\n'
+                    '        unpack_list.append(data[offset + self.length_size: end])\n'
+                    '        return end\n',
+             'new': '        str_length = data[offset]\n'
+                    '        end = offset + 1 + str_length\n'
+                    '        unpack_list.append(data[offset + 1: end])\n'
+                    '        return end\n'}]},
+ {'name': 'round 3: getattr table narrowed',
+  'rule': 'bounds-before-index',
+  'file': 'ipv8/messaging/anonymization/crypto.py',
+  'edits': [{'file': 'ipv8/messaging/anonymization/crypto.py',
+             'old': 'class CryptoException(Exception):\n',
+             'new': '_OPS = {"enc": "encrypt_str", "dec": "decrypt_str"}\n\n\nclass CryptoException(Exception):\n'},
+            {'file': 'ipv8/messaging/anonymization/crypto.py',
+             'old': '                cell.message = hop.keys.decrypt_str(cell.message, direction)\n            except Exception as e:',
+             'new': '                cell.message = getattr(hop.keys, _OPS["dec"])(cell.message, direction)\n            except ValueError as e:'}]},
+ {'name': 'round 3: struct obj from_bin short guard',
+  'rule': 'bounds-before-index',
+  'file': 'ipv8/messaging/anonymization/payload.py',
+  'edits': [{'file': 'ipv8/messaging/anonymization/payload.py',
+             'old': '        circuit_id, plaintext, relay_early = unpack_from("!I??", packet, 23)\n',
+             'new': '        circuit_id, plaintext, relay_early = _HDR.unpack_from(packet, 23)\n'},
+            {'file': 'ipv8/messaging/anonymization/payload.py',
+             'old': 'class CellPayload:\n',
+             'new': '_HDR = Struct("!I??")\n\n\nclass CellPayload:\n'},
+            {'file': 'ipv8/messaging/anonymization/payload.py',
+             'old': 'from struct import calcsize, pack, unpack_from\n',
+             'new': 'from struct import Struct, calcsize, pack, unpack_from\n'},
+            {'file': 'ipv8/messaging/anonymization/crypto.py', 'old': '        if len(data) < 29:\n', 'new': '        if len(data) < 28:\n'}]},
+ {'name': 'round 3: enum verdict == FOREIGN only',
+  'rule': 'prefix-before-dispatch',
+  'file': 'ipv8/community.py',
+  'edits': [{'file': 'ipv8/community.py',
+             'old': '        if self._prefix != data[:22] or len(data) < 23:\n'
+                    '            return\n'
+                    '        msg_id = data[22]\n'
+                    '        handler = self.decode_map[msg_id]\n',
+             'new': '        verdict = self._classify(data)\n'
+                    '        if verdict == _Verdict.SHORT:\n'
+                    '            return\n'
+                    '        msg_id = data[22]\n'
+                    '        handler = self.decode_map[msg_id]\n'},
+            {'file': 'ipv8/community.py',
+             'old': '    def walk_to(self, address: Address) -> None:\n',
+             'new': '    def _classify(self, data: bytes):\n'
+                    '        for _ in range(1):\n'
+                    '            if len(data) < 23:\n'
+                    '                return _Verdict.SHORT\n'
+                    '            if self._prefix != data[:22]:\n'
+                    '                return _Verdict.FOREIGN\n'
+                    '            return _Verdict.OURS\n'
+                    '        return None\n'
+                    '\n'
+                    '    def walk_to(self, address: Address) -> None:\n'},
+            {'file': 'ipv8/community.py',
+             'old': 'class CommunitySettings(Settings):\n',
+             'new': 'class _Verdict(enum.Enum):\n    SHORT = 1\n    FOREIGN = 2\n    OURS = 3\n\n\nclass CommunitySettings(Settings):\n'},
+            {'file': 'ipv8/community.py', 'old': 'import sys\n', 'new': 'import enum\nimport operator\nimport sys\nimport typing\n'}]},
+ {'name': 'round 3: record .ok without prefix',
+  'rule': 'prefix-before-dispatch',
+  'file': 'ipv8/community.py',
+  'edits': [{'file': 'ipv8/community.py',
+             'old': '        if self._prefix != data[:22] or len(data) < 23:\n'
+                    '            return\n'
+                    '        msg_id = data[22]\n'
+                    '        handler = self.decode_map[msg_id]\n',
+             'new': '        check = self._classify(data)\n'
+                    '        if not check.ok:\n'
+                    '            return\n'
+                    '        msg_id = check.msg_id\n'
+                    '        handler = self.decode_map[msg_id]\n'},
+            {'file': 'ipv8/community.py',
+             'old': '    def walk_to(self, address: Address) -> None:\n',
+             'new': '    def _classify(self, data: bytes):\n'
+                    '        for _ in range(1):\n'
+                    '            if len(data) < 23:\n'
+                    '                return _Check(False, 0)\n'
+                    '            return _Check(True, data[22])\n'
+                    '        return None\n'
+                    '\n'
+                    '    def walk_to(self, address: Address) -> None:\n'},
+            {'file': 'ipv8/community.py',
+             'old': 'class CommunitySettings(Settings):\n',
+             'new': 'class _Check(typing.NamedTuple):\n    ok: bool\n    msg_id: int\n\n\nclass CommunitySettings(Settings):\n'},
+            {'file': 'ipv8/community.py', 'old': 'import sys\n', 'new': 'import enum\nimport operator\nimport sys\nimport typing\n'}]},
+ {'name': 'round 3: operator.lt 22',
+  'rule': 'bounds-before-index',
+  'file': 'ipv8/community.py',
+  'edits': [{'file': 'ipv8/community.py',
+             'old': '        if self._prefix != data[:22] or len(data) < 23:\n'
+                    '            return\n'
+                    '        msg_id = data[22]\n'
+                    '        handler = self.decode_map[msg_id]\n',
+             'new': '        if operator.ne(self._prefix, data[:22]) or operator.lt(len(data), 22):\n'
+                    '            return\n'
+                    '        msg_id = data[22]\n'
+                    '        handler = self.decode_map[msg_id]\n'},
+            {'file': 'ipv8/community.py', 'old': 'import sys\n', 'new': 'import enum\nimport operator\nimport sys\nimport typing\n'}]},
+ {'name': 'round 3: EAFP wrong exception',
+  'rule': 'bounds-before-index',
+  'file': 'ipv8/community.py',
+  'edits': [{'file': 'ipv8/community.py',
+             'old': '        if self._prefix != data[:22] or len(data) < 23:\n            return\n        msg_id = data[22]\n',
+             'new': '        if self._prefix != data[:22]:\n'
+                    '            return\n'
+                    '        try:\n'
+                    '            msg_id = data[22]\n'
+                    '        except KeyError:\n'
+                    '            return\n'}]},
+ {'name': 'round 3: selection record attr, fallback empty',
+  'rule': 'prefix-before-dispatch',
+  'file': 'ipv8/messaging/interfaces/endpoint.py',
+  'edits': [{'file': 'ipv8/messaging/interfaces/endpoint.py',
+             'old': '        prefix = packet[1][:self.prefixlen]\n'
+                    '        listeners = self._prefix_map.get(prefix, self._listeners)\n'
+                    '        for listener in listeners:\n',
+             'new': '        selection = self._select(packet)\n        for listener in selection.listeners:\n'},
+            {'file': 'ipv8/messaging/interfaces/endpoint.py',
+             'old': '    def notify_listeners(self, packet: tuple[Address, bytes]) -> None:\n',
+             'new': '    def _select(self, packet: tuple[Address, bytes]):\n'
+                    '        for _ in range(1):\n'
+                    '            prefix = packet[1][:self.prefixlen]\n'
+                    '            if prefix in self._prefix_map:\n'
+                    '                return _Selection(self._prefix_map[prefix], True)\n'
+                    '            return _Selection([], False)\n'
+                    '        return _Selection(self._listeners, False)\n'
+                    '\n'
+                    '    def notify_listeners(self, packet: tuple[Address, bytes]) -> None:\n'},
+            {'file': 'ipv8/messaging/interfaces/endpoint.py',
+             'old': 'class Endpoint(metaclass=abc.ABCMeta):\n',
+             'new': 'class _Selection(typing.NamedTuple):\n    listeners: list\n    known: bool\n\n\nclass Endpoint(metaclass=abc.ABCMeta):\n'},
+            {'file': 'ipv8/messaging/interfaces/endpoint.py', 'old': 'import abc\n', 'new': 'import abc\nimport typing\n'}]},
+ {'name': 'round 3: module lookup helper taking overlay, prefix guard inside on other bytes',
+  'rule': 'prefix-before-dispatch',
+  'file': 'ipv8/community.py',
+  'edits': [{'file': 'ipv8/community.py',
+             'old': '        if self._prefix != data[:22] or len(data) < 23:\n'
+                    '            return\n'
+                    '        msg_id = data[22]\n'
+                    '        handler = self.decode_map[msg_id]\n',
+             'new': '        if len(data) < 23:\n            return\n        msg_id = data[22]\n        handler = _find(self, data[1:])\n'},
+            {'file': 'ipv8/community.py',
+             'old': 'class CommunitySettings(Settings):\n',
+             'new': 'def _find(overlay, data):\n'
+                    '    for _ in range(1):\n'
+                    '        if overlay._prefix == data[:22]:\n'
+                    '            return overlay.decode_map[data[22]]\n'
+                    '    return None\n'
+                    '\n'
+                    '\n'
+                    'class CommunitySettings(Settings):\n'}]},
+ {'name': 'round 3: dedup unpack host, port = addr',
+  'rule': 'address-arity',
+  'file': 'ipv8/messaging/interfaces/udp/endpoint.py',
+  'edits': [{'file': 'ipv8/messaging/interfaces/udp/endpoint.py',
+             'old': '    SOCKET_FAMILY = socket.AF_INET\n',
+             'new': '    SOCKET_FAMILY = socket.AF_INET\n    ADDRESS_CLASS = UDPv4Address\n'},
+            {'file': 'ipv8/messaging/interfaces/udp/endpoint.py',
+             'old': '            self.notify_listeners((UDPv4Address(*addr), datagram))',
+             'new': '            host, port = addr\n            self.notify_listeners((self.ADDRESS_CLASS(host, port), datagram))'},
+            {'file': 'ipv8/messaging/interfaces/udp/endpoint.py',
+             'old': '    SOCKET_FAMILY = socket.AF_INET6\n',
+             'new': '    SOCKET_FAMILY = socket.AF_INET6\n    ADDRESS_CLASS = UDPv6Address\n'},
+            {'file': 'ipv8/messaging/interfaces/udp/endpoint.py',
+             'old': '        super().__init__(port, ip, [(socket.SOL_SOCKET, socket.SO_RCVBUF, 870400),\n'
+                    '                                    (socket.IPPROTO_IPV6, socket.IPV6_V6ONLY, 1)])\n'
+                    '\n'
+                    '    def datagram_received(self, datagram: bytes, addr: Address) -> None:\n'
+                    '        """\n'
+                    '        Process incoming data.\n'
+                    '        """\n'
+                    '        # If the endpoint is still running, accept incoming requests, otherwise drop them\n'
+                    '        if self._running:\n'
+                    '            self.bytes_down += len(datagram)\n'
+                    '            self.notify_listeners((UDPv6Address(*addr[:2]), datagram))\n',
+             'new': '        super().__init__(port, ip, [(socket.SOL_SOCKET, socket.SO_RCVBUF, 870400),\n'
+                    '                                    (socket.IPPROTO_IPV6, socket.IPV6_V6ONLY, 1)])\n'}]},
+ {'name': 'round 3: hook not overridden',
+  'rule': 'address-arity',
+  'file': 'ipv8/messaging/interfaces/udp/endpoint.py',
+  'edits': [{'file': 'ipv8/messaging/interfaces/udp/endpoint.py',
+             'old': '            self.notify_listeners((UDPv4Address(*addr), datagram))',
+             'new': '            self.notify_listeners((self._wrap(addr), datagram))\n'
+                    '\n'
+                    '    def _wrap(self, addr: Address) -> Address:\n'
+                    '        return UDPv4Address(*addr)'},
+            {'file': 'ipv8/messaging/interfaces/udp/endpoint.py',
+             'old': '        super().__init__(port, ip, [(socket.SOL_SOCKET, socket.SO_RCVBUF, 870400),\n'
+                    '                                    (socket.IPPROTO_IPV6, socket.IPV6_V6ONLY, 1)])\n'
+                    '\n'
+                    '    def datagram_received(self, datagram: bytes, addr: Address) -> None:\n'
+                    '        """\n'
+                    '        Process incoming data.\n'
+                    '        """\n'
+                    '        # If the endpoint is still running, accept incoming requests, otherwise drop them\n'
+                    '        if self._running:\n'
+                    '            self.bytes_down += len(datagram)\n'
+                    '            self.notify_listeners((UDPv6Address(*addr[:2]), datagram))\n',
+             'new': '        super().__init__(port, ip, [(socket.SOL_SOCKET, socket.SO_RCVBUF, 870400),\n'
+                    '                                    (socket.IPPROTO_IPV6, socket.IPV6_V6ONLY, 1)])\n'}]}]
